@@ -5,8 +5,10 @@ The fused `fpbase_384_multiply` of /repo/src/core/arch/aarch64/multiply.s (as re
 (lemmas of `A64ProofsMont.lean`).  For every entry state satisfying AAPCS64, `inv·P ≡ −1 (mod 2^64)`, `2P ≤ 2^384` and
 product `< P·2^384` the six result limbs are `< P` and `≡ product·2^{-384} (mod P)`.  `p` and `inv` are parked on the
 stack during the multiplication.  All loads precede all stores: `res` may overlap the operands and `p` in any way.
+This file: the twelve endings and the final theorem; the pieces of the common prefix and the arithmetic lemmas are in
+`A64ProofsFpMulParts.lean`.
 -/
-import JediVerif.Proofs.A64ProofsMont
+import JediVerif.Proofs.A64ProofsFpMulParts
 
 set_option linter.unusedSimpArgs false
 
@@ -16,514 +18,7 @@ open Jedi.Impl (val WF val_cons val_nil val_lt val_inj)
 open Jedi.X86 (limbs limbs_six limbs_twelve limbs_length limbs_WF Hide Hide.mk Hide.out ea_toNat)
 open Jedi.Gen.AsmA64
 
-/-! ## symbolic execution, cut into pieces -/
-
-set_option maxHeartbeats 1600000 in
-theorem fpmul_part0 (s : State) (pr pa pb pp inv : Word)
-    (hr : Buf s pr 6 true) (ha : Buf s pa 6 false) (hb : Buf s pb 6 false) (hp : Buf s pp 6 false)
-    (hstk : Stack s 6) (hrs : OffStack s 6 pr 6) (has : OffStack s 6 pa 6) (hbs : OffStack s 6 pb 6)
-    (hps : OffStack s 6 pp 6) {a0 a1 a2 a3 a4 a5 b0 b1 b2 b3 b4 b5 h13 h16 h19 h22 h25 h28 l14 l15 l18 l21 l24 l27 : Word} {t12 t17 t20 t23 t26 t29 t30 : ArithRes}
-    (hst : s.status = .running) (hpc : s.pc = 0) (h0 : s.x0 = pr) (h1 : s.x1 = pa) (h2 : s.x2 = pb) (h3 : s.x3 = pp)
-    (h4 : s.x4 = inv) (ha0 : a0 = s.mem pa.toNat) (ha1 : a1 = s.mem (pa.toNat + 8)) (ha2 : a2 = s.mem (pa.toNat + 16))
-    (ha3 : a3 = s.mem (pa.toNat + 24)) (ha4 : a4 = s.mem (pa.toNat + 32)) (ha5 : a5 = s.mem (pa.toNat + 40))
-    (hb0 : b0 = s.mem pb.toNat) (hb1 : b1 = s.mem (pb.toNat + 8)) (hb2 : b2 = s.mem (pb.toNat + 16))
-    (hb3 : b3 = s.mem (pb.toNat + 24)) (hb4 : b4 = s.mem (pb.toNat + 32)) (hb5 : b5 = s.mem (pb.toNat + 40))
-    (ht12 : t12 = addWithCarry (0 : Word) (0 : Word) false) (hh13 : h13 = mulHi a0 b0) (hl14 : l14 = mulLo a0 b0)
-    (hl15 : l15 = mulLo a0 b1) (hh16 : h16 = mulHi a0 b1) (ht17 : t17 = addWithCarry l15 h13 t12.c)
-    (hl18 : l18 = mulLo a0 b2) (hh19 : h19 = mulHi a0 b2) (ht20 : t20 = addWithCarry l18 h16 t17.c)
-    (hl21 : l21 = mulLo a0 b3) (hh22 : h22 = mulHi a0 b3) (ht23 : t23 = addWithCarry l21 h19 t20.c)
-    (hl24 : l24 = mulLo a0 b4) (hh25 : h25 = mulHi a0 b4) (ht26 : t26 = addWithCarry l24 h22 t23.c)
-    (hl27 : l27 = mulLo a0 b5) (hh28 : h28 = mulHi a0 b5) (ht29 : t29 = addWithCarry l27 h25 t26.c)
-    (ht30 : t30 = addWithCarry h28 (0 : Word) t29.c) :
-    run embedded_pairing_core_arch_aarch64_fpbase_384_multiply s 31
-      = ({ x0 := pr, x1 := l14, x2 := a0, x3 := a1, x4 := a2, x5 := a3, x6 := a4, x7 := a5, x8 := s.x8, x9 := b0, x10 := b1, x11 := b2, x12 := b3, x13 := b4, x14 := b5, x15 := t17.val, x16 := s.x16, x17 := s.x17, x18 := s.x18, x19 := t20.val, x20 := t23.val, x21 := t26.val, x22 := t29.val, x23 := t30.val, x24 := s.x24, x25 := s.x25, x26 := s.x26, x27 := s.x27, x28 := h25, x29 := s.x29, x30 := s.x30, sp := s.sp - 16#64 - 16#64 - 16#64 - 16#64 - 16#64 - 16#64, nf := some t30.n, zf := some t30.z, cf := some t30.c, vf := some t30.v, mem := setMem (setMem (setMem (setMem (setMem (setMem (setMem (setMem (setMem (setMem (setMem (setMem (s.mem) (s.sp.toNat - 16) s.x19) (s.sp.toNat - 16 + 8) s.x20) (s.sp.toNat - 16 - 16) s.x21) (s.sp.toNat - 16 - 16 + 8) s.x22) (s.sp.toNat - 16 - 16 - 16) s.x23) (s.sp.toNat - 16 - 16 - 16 + 8) s.x24) (s.sp.toNat - 16 - 16 - 16 - 16) s.x25) (s.sp.toNat - 16 - 16 - 16 - 16 + 8) s.x26) (s.sp.toNat - 16 - 16 - 16 - 16 - 16) s.x27) (s.sp.toNat - 16 - 16 - 16 - 16 - 16 + 8) s.x28) (s.sp.toNat - 16 - 16 - 16 - 16 - 16 - 16) pp) (s.sp.toNat - 16 - 16 - 16 - 16 - 16 - 16 + 8) inv, readable := s.readable, writable := s.writable, pc := 31, status := .running } : State) := by
-  obtain ⟨ra0, ra1, ra2, ra3, ra4, ra5⟩ := ha.r6
-  obtain ⟨⟨alra0, alra1, alra2, alra3, alra4, alra5⟩, fra1, fra2, fra3, fra4, fra5⟩ := ha.addr6
-  obtain ⟨rb0, rb1, rb2, rb3, rb4, rb5⟩ := hb.r6
-  obtain ⟨⟨alrb0, alrb1, alrb2, alrb3, alrb4, alrb5⟩, frb1, frb2, frb3, frb4, frb5⟩ := hb.addr6
-  obtain ⟨rp0, rp1, rp2, rp3, rp4, rp5⟩ := hp.r6
-  obtain ⟨⟨alrp0, alrp1, alrp2, alrp3, alrp4, alrp5⟩, frp1, frp2, frp3, frp4, frp5⟩ := hp.addr6
-  obtain ⟨rr0, rr1, rr2, rr3, rr4, rr5⟩ := hr.r6
-  obtain ⟨wr0, wr1, wr2, wr3, wr4, wr5⟩ := hr.w6
-  obtain ⟨⟨alrr0, alrr1, alrr2, alrr3, alrr4, alrr5⟩, frr1, frr2, frr3, frr4, frr5⟩ := hr.addr6
-  have als0 := hstk.aligned
-  obtain ⟨room1, als1, alq1a, alq1b, sr1a, sr1b, sw1a, sw1b⟩ := hstk.f1 (by omega)
-  obtain ⟨room2, als2, alq2a, alq2b, sr2a, sr2b, sw2a, sw2b⟩ := hstk.f2 (by omega)
-  obtain ⟨room3, als3, alq3a, alq3b, sr3a, sr3b, sw3a, sw3b⟩ := hstk.f3 (by omega)
-  obtain ⟨room4, als4, alq4a, alq4b, sr4a, sr4b, sw4a, sw4b⟩ := hstk.f4 (by omega)
-  obtain ⟨room5, als5, alq5a, alq5b, sr5a, sr5b, sw5a, sw5b⟩ := hstk.f5 (by omega)
-  obtain ⟨room6, als6, alq6a, alq6b, sr6a, sr6b, sw6a, sw6b⟩ := hstk.f6 (by omega)
-  replace hrs := Hide.mk (And.intro room6 hrs); replace has := Hide.mk (And.intro room6 has)
-  replace hbs := Hide.mk (And.intro room6 hbs); replace hps := Hide.mk (And.intro room6 hps)
-  simp only [OffStack] at hrs has hbs hps
-  clear ha hb hp hr hstk
-  rw [State.eta s]
-  a64_sym [hst, hpc, h0, h1, h2, h3, h4, ← ha0, ← ha1, ← ha2, ← ha3, ← ha4, ← ha5, ← hb0, ← hb1, ← hb2, ← hb3, ← hb4, ← hb5, ← ht12, ← hh13, ← hl14, ← hl15, ← hh16, ← ht17, ← hl18, ← hh19, ← ht20, ← hl21, ← hh22, ← ht23, ← hl24, ← hh25, ← ht26, ← hl27, ← hh28, ← ht29, ← ht30]
-
-set_option maxHeartbeats 1600000 in
-theorem fpmul_part1 (s : State) (pr pa pb pp inv : Word)
-    (hr : Buf s pr 6 true) (ha : Buf s pa 6 false) (hb : Buf s pb 6 false) (hp : Buf s pp 6 false)
-    (hstk : Stack s 6) (hrs : OffStack s 6 pr 6) (has : OffStack s 6 pa 6) (hbs : OffStack s 6 pb 6)
-    (hps : OffStack s 6 pp 6) {a0 a1 a2 a3 a4 a5 b0 b1 b2 b3 b4 b5 h25 h32 h35 h40 h45 h50 h55 l14 l31 l34 l39 l44 l49 l54 : Word} {t17 t20 t23 t26 t29 t30 t33 t36 t37 t38 t41 t42 t43 t46 t47 t48 t51 t52 t53 t56 t57 t58 t59 : ArithRes}
-    (hl31 : l31 = mulLo a1 b0) (hh32 : h32 = mulHi a1 b0) (ht33 : t33 = addWithCarry t17.val l31 false)
-    (hl34 : l34 = mulLo a1 b1) (hh35 : h35 = mulHi a1 b1) (ht36 : t36 = addWithCarry t20.val l34 t33.c)
-    (ht37 : t37 = addWithCarry h35 (0 : Word) t36.c) (ht38 : t38 = addWithCarry t36.val h32 false)
-    (hl39 : l39 = mulLo a1 b2) (hh40 : h40 = mulHi a1 b2) (ht41 : t41 = addWithCarry t23.val l39 t38.c)
-    (ht42 : t42 = addWithCarry h40 (0 : Word) t41.c) (ht43 : t43 = addWithCarry t41.val t37.val false)
-    (hl44 : l44 = mulLo a1 b3) (hh45 : h45 = mulHi a1 b3) (ht46 : t46 = addWithCarry t26.val l44 t43.c)
-    (ht47 : t47 = addWithCarry h45 (0 : Word) t46.c) (ht48 : t48 = addWithCarry t46.val t42.val false)
-    (hl49 : l49 = mulLo a1 b4) (hh50 : h50 = mulHi a1 b4) (ht51 : t51 = addWithCarry t29.val l49 t48.c)
-    (ht52 : t52 = addWithCarry h50 (0 : Word) t51.c) (ht53 : t53 = addWithCarry t51.val t47.val false)
-    (hl54 : l54 = mulLo a1 b5) (hh55 : h55 = mulHi a1 b5) (ht56 : t56 = addWithCarry t30.val l54 t53.c)
-    (ht57 : t57 = addWithCarry h55 (0 : Word) t56.c) (ht58 : t58 = addWithCarry t56.val t52.val false)
-    (ht59 : t59 = addWithCarry t57.val (0 : Word) t58.c) :
-    run embedded_pairing_core_arch_aarch64_fpbase_384_multiply ({ x0 := pr, x1 := l14, x2 := a0, x3 := a1, x4 := a2, x5 := a3, x6 := a4, x7 := a5, x8 := s.x8, x9 := b0, x10 := b1, x11 := b2, x12 := b3, x13 := b4, x14 := b5, x15 := t17.val, x16 := s.x16, x17 := s.x17, x18 := s.x18, x19 := t20.val, x20 := t23.val, x21 := t26.val, x22 := t29.val, x23 := t30.val, x24 := s.x24, x25 := s.x25, x26 := s.x26, x27 := s.x27, x28 := h25, x29 := s.x29, x30 := s.x30, sp := s.sp - 16#64 - 16#64 - 16#64 - 16#64 - 16#64 - 16#64, nf := some t30.n, zf := some t30.z, cf := some t30.c, vf := some t30.v, mem := setMem (setMem (setMem (setMem (setMem (setMem (setMem (setMem (setMem (setMem (setMem (setMem (s.mem) (s.sp.toNat - 16) s.x19) (s.sp.toNat - 16 + 8) s.x20) (s.sp.toNat - 16 - 16) s.x21) (s.sp.toNat - 16 - 16 + 8) s.x22) (s.sp.toNat - 16 - 16 - 16) s.x23) (s.sp.toNat - 16 - 16 - 16 + 8) s.x24) (s.sp.toNat - 16 - 16 - 16 - 16) s.x25) (s.sp.toNat - 16 - 16 - 16 - 16 + 8) s.x26) (s.sp.toNat - 16 - 16 - 16 - 16 - 16) s.x27) (s.sp.toNat - 16 - 16 - 16 - 16 - 16 + 8) s.x28) (s.sp.toNat - 16 - 16 - 16 - 16 - 16 - 16) pp) (s.sp.toNat - 16 - 16 - 16 - 16 - 16 - 16 + 8) inv, readable := s.readable, writable := s.writable, pc := 31, status := .running } : State) 29
-      = ({ x0 := pr, x1 := l14, x2 := l54, x3 := a1, x4 := a2, x5 := a3, x6 := a4, x7 := a5, x8 := s.x8, x9 := b0, x10 := b1, x11 := b2, x12 := b3, x13 := b4, x14 := b5, x15 := t33.val, x16 := s.x16, x17 := s.x17, x18 := s.x18, x19 := t38.val, x20 := t43.val, x21 := t48.val, x22 := t53.val, x23 := t58.val, x24 := t59.val, x25 := s.x25, x26 := s.x26, x27 := s.x27, x28 := t52.val, x29 := s.x29, x30 := s.x30, sp := s.sp - 16#64 - 16#64 - 16#64 - 16#64 - 16#64 - 16#64, nf := some t59.n, zf := some t59.z, cf := some t59.c, vf := some t59.v, mem := setMem (setMem (setMem (setMem (setMem (setMem (setMem (setMem (setMem (setMem (setMem (setMem (s.mem) (s.sp.toNat - 16) s.x19) (s.sp.toNat - 16 + 8) s.x20) (s.sp.toNat - 16 - 16) s.x21) (s.sp.toNat - 16 - 16 + 8) s.x22) (s.sp.toNat - 16 - 16 - 16) s.x23) (s.sp.toNat - 16 - 16 - 16 + 8) s.x24) (s.sp.toNat - 16 - 16 - 16 - 16) s.x25) (s.sp.toNat - 16 - 16 - 16 - 16 + 8) s.x26) (s.sp.toNat - 16 - 16 - 16 - 16 - 16) s.x27) (s.sp.toNat - 16 - 16 - 16 - 16 - 16 + 8) s.x28) (s.sp.toNat - 16 - 16 - 16 - 16 - 16 - 16) pp) (s.sp.toNat - 16 - 16 - 16 - 16 - 16 - 16 + 8) inv, readable := s.readable, writable := s.writable, pc := 60, status := .running } : State) := by
-  obtain ⟨ra0, ra1, ra2, ra3, ra4, ra5⟩ := ha.r6
-  obtain ⟨⟨alra0, alra1, alra2, alra3, alra4, alra5⟩, fra1, fra2, fra3, fra4, fra5⟩ := ha.addr6
-  obtain ⟨rb0, rb1, rb2, rb3, rb4, rb5⟩ := hb.r6
-  obtain ⟨⟨alrb0, alrb1, alrb2, alrb3, alrb4, alrb5⟩, frb1, frb2, frb3, frb4, frb5⟩ := hb.addr6
-  obtain ⟨rp0, rp1, rp2, rp3, rp4, rp5⟩ := hp.r6
-  obtain ⟨⟨alrp0, alrp1, alrp2, alrp3, alrp4, alrp5⟩, frp1, frp2, frp3, frp4, frp5⟩ := hp.addr6
-  obtain ⟨rr0, rr1, rr2, rr3, rr4, rr5⟩ := hr.r6
-  obtain ⟨wr0, wr1, wr2, wr3, wr4, wr5⟩ := hr.w6
-  obtain ⟨⟨alrr0, alrr1, alrr2, alrr3, alrr4, alrr5⟩, frr1, frr2, frr3, frr4, frr5⟩ := hr.addr6
-  have als0 := hstk.aligned
-  obtain ⟨room1, als1, alq1a, alq1b, sr1a, sr1b, sw1a, sw1b⟩ := hstk.f1 (by omega)
-  obtain ⟨room2, als2, alq2a, alq2b, sr2a, sr2b, sw2a, sw2b⟩ := hstk.f2 (by omega)
-  obtain ⟨room3, als3, alq3a, alq3b, sr3a, sr3b, sw3a, sw3b⟩ := hstk.f3 (by omega)
-  obtain ⟨room4, als4, alq4a, alq4b, sr4a, sr4b, sw4a, sw4b⟩ := hstk.f4 (by omega)
-  obtain ⟨room5, als5, alq5a, alq5b, sr5a, sr5b, sw5a, sw5b⟩ := hstk.f5 (by omega)
-  obtain ⟨room6, als6, alq6a, alq6b, sr6a, sr6b, sw6a, sw6b⟩ := hstk.f6 (by omega)
-  replace hrs := Hide.mk (And.intro room6 hrs); replace has := Hide.mk (And.intro room6 has)
-  replace hbs := Hide.mk (And.intro room6 hbs); replace hps := Hide.mk (And.intro room6 hps)
-  simp only [OffStack] at hrs has hbs hps
-  clear ha hb hp hr hstk
-  a64_sym [← hl31, ← hh32, ← ht33, ← hl34, ← hh35, ← ht36, ← ht37, ← ht38, ← hl39, ← hh40, ← ht41, ← ht42, ← ht43, ← hl44, ← hh45, ← ht46, ← ht47, ← ht48, ← hl49, ← hh50, ← ht51, ← ht52, ← ht53, ← hl54, ← hh55, ← ht56, ← ht57, ← ht58, ← ht59]
-
-set_option maxHeartbeats 1600000 in
-theorem fpmul_part2 (s : State) (pr pa pb pp inv : Word)
-    (hr : Buf s pr 6 true) (ha : Buf s pa 6 false) (hb : Buf s pb 6 false) (hp : Buf s pp 6 false)
-    (hstk : Stack s 6) (hrs : OffStack s 6 pr 6) (has : OffStack s 6 pa 6) (hbs : OffStack s 6 pb 6)
-    (hps : OffStack s 6 pp 6) {a1 a2 a3 a4 a5 b0 b1 b2 b3 b4 b5 h61 h64 h69 h74 h79 h84 l14 l54 l60 l63 l68 l73 l78 l83 : Word} {t33 t38 t43 t48 t52 t53 t58 t59 t62 t65 t66 t67 t70 t71 t72 t75 t76 t77 t80 t81 t82 t85 t86 t87 t88 : ArithRes}
-    (hl60 : l60 = mulLo a2 b0) (hh61 : h61 = mulHi a2 b0) (ht62 : t62 = addWithCarry t38.val l60 false)
-    (hl63 : l63 = mulLo a2 b1) (hh64 : h64 = mulHi a2 b1) (ht65 : t65 = addWithCarry t43.val l63 t62.c)
-    (ht66 : t66 = addWithCarry h64 (0 : Word) t65.c) (ht67 : t67 = addWithCarry t65.val h61 false)
-    (hl68 : l68 = mulLo a2 b2) (hh69 : h69 = mulHi a2 b2) (ht70 : t70 = addWithCarry t48.val l68 t67.c)
-    (ht71 : t71 = addWithCarry h69 (0 : Word) t70.c) (ht72 : t72 = addWithCarry t70.val t66.val false)
-    (hl73 : l73 = mulLo a2 b3) (hh74 : h74 = mulHi a2 b3) (ht75 : t75 = addWithCarry t53.val l73 t72.c)
-    (ht76 : t76 = addWithCarry h74 (0 : Word) t75.c) (ht77 : t77 = addWithCarry t75.val t71.val false)
-    (hl78 : l78 = mulLo a2 b4) (hh79 : h79 = mulHi a2 b4) (ht80 : t80 = addWithCarry t58.val l78 t77.c)
-    (ht81 : t81 = addWithCarry h79 (0 : Word) t80.c) (ht82 : t82 = addWithCarry t80.val t76.val false)
-    (hl83 : l83 = mulLo a2 b5) (hh84 : h84 = mulHi a2 b5) (ht85 : t85 = addWithCarry t59.val l83 t82.c)
-    (ht86 : t86 = addWithCarry h84 (0 : Word) t85.c) (ht87 : t87 = addWithCarry t85.val t81.val false)
-    (ht88 : t88 = addWithCarry t86.val (0 : Word) t87.c) :
-    run embedded_pairing_core_arch_aarch64_fpbase_384_multiply ({ x0 := pr, x1 := l14, x2 := l54, x3 := a1, x4 := a2, x5 := a3, x6 := a4, x7 := a5, x8 := s.x8, x9 := b0, x10 := b1, x11 := b2, x12 := b3, x13 := b4, x14 := b5, x15 := t33.val, x16 := s.x16, x17 := s.x17, x18 := s.x18, x19 := t38.val, x20 := t43.val, x21 := t48.val, x22 := t53.val, x23 := t58.val, x24 := t59.val, x25 := s.x25, x26 := s.x26, x27 := s.x27, x28 := t52.val, x29 := s.x29, x30 := s.x30, sp := s.sp - 16#64 - 16#64 - 16#64 - 16#64 - 16#64 - 16#64, nf := some t59.n, zf := some t59.z, cf := some t59.c, vf := some t59.v, mem := setMem (setMem (setMem (setMem (setMem (setMem (setMem (setMem (setMem (setMem (setMem (setMem (s.mem) (s.sp.toNat - 16) s.x19) (s.sp.toNat - 16 + 8) s.x20) (s.sp.toNat - 16 - 16) s.x21) (s.sp.toNat - 16 - 16 + 8) s.x22) (s.sp.toNat - 16 - 16 - 16) s.x23) (s.sp.toNat - 16 - 16 - 16 + 8) s.x24) (s.sp.toNat - 16 - 16 - 16 - 16) s.x25) (s.sp.toNat - 16 - 16 - 16 - 16 + 8) s.x26) (s.sp.toNat - 16 - 16 - 16 - 16 - 16) s.x27) (s.sp.toNat - 16 - 16 - 16 - 16 - 16 + 8) s.x28) (s.sp.toNat - 16 - 16 - 16 - 16 - 16 - 16) pp) (s.sp.toNat - 16 - 16 - 16 - 16 - 16 - 16 + 8) inv, readable := s.readable, writable := s.writable, pc := 60, status := .running } : State) 29
-      = ({ x0 := pr, x1 := l14, x2 := l83, x3 := t81.val, x4 := a2, x5 := a3, x6 := a4, x7 := a5, x8 := s.x8, x9 := b0, x10 := b1, x11 := b2, x12 := b3, x13 := b4, x14 := b5, x15 := t33.val, x16 := s.x16, x17 := s.x17, x18 := s.x18, x19 := t62.val, x20 := t67.val, x21 := t72.val, x22 := t77.val, x23 := t82.val, x24 := t87.val, x25 := t88.val, x26 := s.x26, x27 := s.x27, x28 := t52.val, x29 := s.x29, x30 := s.x30, sp := s.sp - 16#64 - 16#64 - 16#64 - 16#64 - 16#64 - 16#64, nf := some t88.n, zf := some t88.z, cf := some t88.c, vf := some t88.v, mem := setMem (setMem (setMem (setMem (setMem (setMem (setMem (setMem (setMem (setMem (setMem (setMem (s.mem) (s.sp.toNat - 16) s.x19) (s.sp.toNat - 16 + 8) s.x20) (s.sp.toNat - 16 - 16) s.x21) (s.sp.toNat - 16 - 16 + 8) s.x22) (s.sp.toNat - 16 - 16 - 16) s.x23) (s.sp.toNat - 16 - 16 - 16 + 8) s.x24) (s.sp.toNat - 16 - 16 - 16 - 16) s.x25) (s.sp.toNat - 16 - 16 - 16 - 16 + 8) s.x26) (s.sp.toNat - 16 - 16 - 16 - 16 - 16) s.x27) (s.sp.toNat - 16 - 16 - 16 - 16 - 16 + 8) s.x28) (s.sp.toNat - 16 - 16 - 16 - 16 - 16 - 16) pp) (s.sp.toNat - 16 - 16 - 16 - 16 - 16 - 16 + 8) inv, readable := s.readable, writable := s.writable, pc := 89, status := .running } : State) := by
-  obtain ⟨ra0, ra1, ra2, ra3, ra4, ra5⟩ := ha.r6
-  obtain ⟨⟨alra0, alra1, alra2, alra3, alra4, alra5⟩, fra1, fra2, fra3, fra4, fra5⟩ := ha.addr6
-  obtain ⟨rb0, rb1, rb2, rb3, rb4, rb5⟩ := hb.r6
-  obtain ⟨⟨alrb0, alrb1, alrb2, alrb3, alrb4, alrb5⟩, frb1, frb2, frb3, frb4, frb5⟩ := hb.addr6
-  obtain ⟨rp0, rp1, rp2, rp3, rp4, rp5⟩ := hp.r6
-  obtain ⟨⟨alrp0, alrp1, alrp2, alrp3, alrp4, alrp5⟩, frp1, frp2, frp3, frp4, frp5⟩ := hp.addr6
-  obtain ⟨rr0, rr1, rr2, rr3, rr4, rr5⟩ := hr.r6
-  obtain ⟨wr0, wr1, wr2, wr3, wr4, wr5⟩ := hr.w6
-  obtain ⟨⟨alrr0, alrr1, alrr2, alrr3, alrr4, alrr5⟩, frr1, frr2, frr3, frr4, frr5⟩ := hr.addr6
-  have als0 := hstk.aligned
-  obtain ⟨room1, als1, alq1a, alq1b, sr1a, sr1b, sw1a, sw1b⟩ := hstk.f1 (by omega)
-  obtain ⟨room2, als2, alq2a, alq2b, sr2a, sr2b, sw2a, sw2b⟩ := hstk.f2 (by omega)
-  obtain ⟨room3, als3, alq3a, alq3b, sr3a, sr3b, sw3a, sw3b⟩ := hstk.f3 (by omega)
-  obtain ⟨room4, als4, alq4a, alq4b, sr4a, sr4b, sw4a, sw4b⟩ := hstk.f4 (by omega)
-  obtain ⟨room5, als5, alq5a, alq5b, sr5a, sr5b, sw5a, sw5b⟩ := hstk.f5 (by omega)
-  obtain ⟨room6, als6, alq6a, alq6b, sr6a, sr6b, sw6a, sw6b⟩ := hstk.f6 (by omega)
-  replace hrs := Hide.mk (And.intro room6 hrs); replace has := Hide.mk (And.intro room6 has)
-  replace hbs := Hide.mk (And.intro room6 hbs); replace hps := Hide.mk (And.intro room6 hps)
-  simp only [OffStack] at hrs has hbs hps
-  clear ha hb hp hr hstk
-  a64_sym [← hl60, ← hh61, ← ht62, ← hl63, ← hh64, ← ht65, ← ht66, ← ht67, ← hl68, ← hh69, ← ht70, ← ht71, ← ht72, ← hl73, ← hh74, ← ht75, ← ht76, ← ht77, ← hl78, ← hh79, ← ht80, ← ht81, ← ht82, ← hl83, ← hh84, ← ht85, ← ht86, ← ht87, ← ht88]
-
-set_option maxHeartbeats 1600000 in
-theorem fpmul_part3 (s : State) (pr pa pb pp inv : Word)
-    (hr : Buf s pr 6 true) (ha : Buf s pa 6 false) (hb : Buf s pb 6 false) (hp : Buf s pp 6 false)
-    (hstk : Stack s 6) (hrs : OffStack s 6 pr 6) (has : OffStack s 6 pa 6) (hbs : OffStack s 6 pb 6)
-    (hps : OffStack s 6 pp 6) {a2 a3 a4 a5 b0 b1 b2 b3 b4 b5 h90 h93 h98 l14 l83 l89 l92 l97 h103 h108 h113 l102 l107 l112 : Word} {t33 t52 t62 t67 t72 t77 t81 t82 t87 t88 t91 t94 t95 t96 t99 t100 t101 t104 t105 t106 t109 t110 t111 t114 t115 t116 t117 : ArithRes}
-    (hl89 : l89 = mulLo a3 b0) (hh90 : h90 = mulHi a3 b0) (ht91 : t91 = addWithCarry t67.val l89 false)
-    (hl92 : l92 = mulLo a3 b1) (hh93 : h93 = mulHi a3 b1) (ht94 : t94 = addWithCarry t72.val l92 t91.c)
-    (ht95 : t95 = addWithCarry h93 (0 : Word) t94.c) (ht96 : t96 = addWithCarry t94.val h90 false)
-    (hl97 : l97 = mulLo a3 b2) (hh98 : h98 = mulHi a3 b2) (ht99 : t99 = addWithCarry t77.val l97 t96.c)
-    (ht100 : t100 = addWithCarry h98 (0 : Word) t99.c) (ht101 : t101 = addWithCarry t99.val t95.val false)
-    (hl102 : l102 = mulLo a3 b3) (hh103 : h103 = mulHi a3 b3) (ht104 : t104 = addWithCarry t82.val l102 t101.c)
-    (ht105 : t105 = addWithCarry h103 (0 : Word) t104.c) (ht106 : t106 = addWithCarry t104.val t100.val false)
-    (hl107 : l107 = mulLo a3 b4) (hh108 : h108 = mulHi a3 b4) (ht109 : t109 = addWithCarry t87.val l107 t106.c)
-    (ht110 : t110 = addWithCarry h108 (0 : Word) t109.c) (ht111 : t111 = addWithCarry t109.val t105.val false)
-    (hl112 : l112 = mulLo a3 b5) (hh113 : h113 = mulHi a3 b5) (ht114 : t114 = addWithCarry t88.val l112 t111.c)
-    (ht115 : t115 = addWithCarry h113 (0 : Word) t114.c) (ht116 : t116 = addWithCarry t114.val t110.val false)
-    (ht117 : t117 = addWithCarry t115.val (0 : Word) t116.c) :
-    run embedded_pairing_core_arch_aarch64_fpbase_384_multiply ({ x0 := pr, x1 := l14, x2 := l83, x3 := t81.val, x4 := a2, x5 := a3, x6 := a4, x7 := a5, x8 := s.x8, x9 := b0, x10 := b1, x11 := b2, x12 := b3, x13 := b4, x14 := b5, x15 := t33.val, x16 := s.x16, x17 := s.x17, x18 := s.x18, x19 := t62.val, x20 := t67.val, x21 := t72.val, x22 := t77.val, x23 := t82.val, x24 := t87.val, x25 := t88.val, x26 := s.x26, x27 := s.x27, x28 := t52.val, x29 := s.x29, x30 := s.x30, sp := s.sp - 16#64 - 16#64 - 16#64 - 16#64 - 16#64 - 16#64, nf := some t88.n, zf := some t88.z, cf := some t88.c, vf := some t88.v, mem := setMem (setMem (setMem (setMem (setMem (setMem (setMem (setMem (setMem (setMem (setMem (setMem (s.mem) (s.sp.toNat - 16) s.x19) (s.sp.toNat - 16 + 8) s.x20) (s.sp.toNat - 16 - 16) s.x21) (s.sp.toNat - 16 - 16 + 8) s.x22) (s.sp.toNat - 16 - 16 - 16) s.x23) (s.sp.toNat - 16 - 16 - 16 + 8) s.x24) (s.sp.toNat - 16 - 16 - 16 - 16) s.x25) (s.sp.toNat - 16 - 16 - 16 - 16 + 8) s.x26) (s.sp.toNat - 16 - 16 - 16 - 16 - 16) s.x27) (s.sp.toNat - 16 - 16 - 16 - 16 - 16 + 8) s.x28) (s.sp.toNat - 16 - 16 - 16 - 16 - 16 - 16) pp) (s.sp.toNat - 16 - 16 - 16 - 16 - 16 - 16 + 8) inv, readable := s.readable, writable := s.writable, pc := 89, status := .running } : State) 29
-      = ({ x0 := pr, x1 := l14, x2 := l112, x3 := t110.val, x4 := a2, x5 := a3, x6 := a4, x7 := a5, x8 := s.x8, x9 := b0, x10 := b1, x11 := b2, x12 := b3, x13 := b4, x14 := b5, x15 := t33.val, x16 := s.x16, x17 := s.x17, x18 := s.x18, x19 := t62.val, x20 := t91.val, x21 := t96.val, x22 := t101.val, x23 := t106.val, x24 := t111.val, x25 := t116.val, x26 := t117.val, x27 := s.x27, x28 := t52.val, x29 := s.x29, x30 := s.x30, sp := s.sp - 16#64 - 16#64 - 16#64 - 16#64 - 16#64 - 16#64, nf := some t117.n, zf := some t117.z, cf := some t117.c, vf := some t117.v, mem := setMem (setMem (setMem (setMem (setMem (setMem (setMem (setMem (setMem (setMem (setMem (setMem (s.mem) (s.sp.toNat - 16) s.x19) (s.sp.toNat - 16 + 8) s.x20) (s.sp.toNat - 16 - 16) s.x21) (s.sp.toNat - 16 - 16 + 8) s.x22) (s.sp.toNat - 16 - 16 - 16) s.x23) (s.sp.toNat - 16 - 16 - 16 + 8) s.x24) (s.sp.toNat - 16 - 16 - 16 - 16) s.x25) (s.sp.toNat - 16 - 16 - 16 - 16 + 8) s.x26) (s.sp.toNat - 16 - 16 - 16 - 16 - 16) s.x27) (s.sp.toNat - 16 - 16 - 16 - 16 - 16 + 8) s.x28) (s.sp.toNat - 16 - 16 - 16 - 16 - 16 - 16) pp) (s.sp.toNat - 16 - 16 - 16 - 16 - 16 - 16 + 8) inv, readable := s.readable, writable := s.writable, pc := 118, status := .running } : State) := by
-  obtain ⟨ra0, ra1, ra2, ra3, ra4, ra5⟩ := ha.r6
-  obtain ⟨⟨alra0, alra1, alra2, alra3, alra4, alra5⟩, fra1, fra2, fra3, fra4, fra5⟩ := ha.addr6
-  obtain ⟨rb0, rb1, rb2, rb3, rb4, rb5⟩ := hb.r6
-  obtain ⟨⟨alrb0, alrb1, alrb2, alrb3, alrb4, alrb5⟩, frb1, frb2, frb3, frb4, frb5⟩ := hb.addr6
-  obtain ⟨rp0, rp1, rp2, rp3, rp4, rp5⟩ := hp.r6
-  obtain ⟨⟨alrp0, alrp1, alrp2, alrp3, alrp4, alrp5⟩, frp1, frp2, frp3, frp4, frp5⟩ := hp.addr6
-  obtain ⟨rr0, rr1, rr2, rr3, rr4, rr5⟩ := hr.r6
-  obtain ⟨wr0, wr1, wr2, wr3, wr4, wr5⟩ := hr.w6
-  obtain ⟨⟨alrr0, alrr1, alrr2, alrr3, alrr4, alrr5⟩, frr1, frr2, frr3, frr4, frr5⟩ := hr.addr6
-  have als0 := hstk.aligned
-  obtain ⟨room1, als1, alq1a, alq1b, sr1a, sr1b, sw1a, sw1b⟩ := hstk.f1 (by omega)
-  obtain ⟨room2, als2, alq2a, alq2b, sr2a, sr2b, sw2a, sw2b⟩ := hstk.f2 (by omega)
-  obtain ⟨room3, als3, alq3a, alq3b, sr3a, sr3b, sw3a, sw3b⟩ := hstk.f3 (by omega)
-  obtain ⟨room4, als4, alq4a, alq4b, sr4a, sr4b, sw4a, sw4b⟩ := hstk.f4 (by omega)
-  obtain ⟨room5, als5, alq5a, alq5b, sr5a, sr5b, sw5a, sw5b⟩ := hstk.f5 (by omega)
-  obtain ⟨room6, als6, alq6a, alq6b, sr6a, sr6b, sw6a, sw6b⟩ := hstk.f6 (by omega)
-  replace hrs := Hide.mk (And.intro room6 hrs); replace has := Hide.mk (And.intro room6 has)
-  replace hbs := Hide.mk (And.intro room6 hbs); replace hps := Hide.mk (And.intro room6 hps)
-  simp only [OffStack] at hrs has hbs hps
-  clear ha hb hp hr hstk
-  a64_sym [← hl89, ← hh90, ← ht91, ← hl92, ← hh93, ← ht94, ← ht95, ← ht96, ← hl97, ← hh98, ← ht99, ← ht100, ← ht101, ← hl102, ← hh103, ← ht104, ← ht105, ← ht106, ← hl107, ← hh108, ← ht109, ← ht110, ← ht111, ← hl112, ← hh113, ← ht114, ← ht115, ← ht116, ← ht117]
-
-set_option maxHeartbeats 1600000 in
-theorem fpmul_part4 (s : State) (pr pa pb pp inv : Word)
-    (hr : Buf s pr 6 true) (ha : Buf s pa 6 false) (hb : Buf s pb 6 false) (hp : Buf s pp 6 false)
-    (hstk : Stack s 6) (hrs : OffStack s 6 pr 6) (has : OffStack s 6 pa 6) (hbs : OffStack s 6 pb 6)
-    (hps : OffStack s 6 pp 6) {a2 a3 a4 a5 b0 b1 b2 b3 b4 b5 l14 h119 h122 h127 h132 h137 h142 l112 l118 l121 l126 l131 l136 l141 : Word} {t33 t52 t62 t91 t96 t101 t106 t110 t111 t116 t117 t120 t123 t124 t125 t128 t129 t130 t133 t134 t135 t138 t139 t140 t143 t144 t145 t146 : ArithRes}
-    (hl118 : l118 = mulLo a4 b0) (hh119 : h119 = mulHi a4 b0) (ht120 : t120 = addWithCarry t96.val l118 false)
-    (hl121 : l121 = mulLo a4 b1) (hh122 : h122 = mulHi a4 b1) (ht123 : t123 = addWithCarry t101.val l121 t120.c)
-    (ht124 : t124 = addWithCarry h122 (0 : Word) t123.c) (ht125 : t125 = addWithCarry t123.val h119 false)
-    (hl126 : l126 = mulLo a4 b2) (hh127 : h127 = mulHi a4 b2) (ht128 : t128 = addWithCarry t106.val l126 t125.c)
-    (ht129 : t129 = addWithCarry h127 (0 : Word) t128.c) (ht130 : t130 = addWithCarry t128.val t124.val false)
-    (hl131 : l131 = mulLo a4 b3) (hh132 : h132 = mulHi a4 b3) (ht133 : t133 = addWithCarry t111.val l131 t130.c)
-    (ht134 : t134 = addWithCarry h132 (0 : Word) t133.c) (ht135 : t135 = addWithCarry t133.val t129.val false)
-    (hl136 : l136 = mulLo a4 b4) (hh137 : h137 = mulHi a4 b4) (ht138 : t138 = addWithCarry t116.val l136 t135.c)
-    (ht139 : t139 = addWithCarry h137 (0 : Word) t138.c) (ht140 : t140 = addWithCarry t138.val t134.val false)
-    (hl141 : l141 = mulLo a4 b5) (hh142 : h142 = mulHi a4 b5) (ht143 : t143 = addWithCarry t117.val l141 t140.c)
-    (ht144 : t144 = addWithCarry h142 (0 : Word) t143.c) (ht145 : t145 = addWithCarry t143.val t139.val false)
-    (ht146 : t146 = addWithCarry t144.val (0 : Word) t145.c) :
-    run embedded_pairing_core_arch_aarch64_fpbase_384_multiply ({ x0 := pr, x1 := l14, x2 := l112, x3 := t110.val, x4 := a2, x5 := a3, x6 := a4, x7 := a5, x8 := s.x8, x9 := b0, x10 := b1, x11 := b2, x12 := b3, x13 := b4, x14 := b5, x15 := t33.val, x16 := s.x16, x17 := s.x17, x18 := s.x18, x19 := t62.val, x20 := t91.val, x21 := t96.val, x22 := t101.val, x23 := t106.val, x24 := t111.val, x25 := t116.val, x26 := t117.val, x27 := s.x27, x28 := t52.val, x29 := s.x29, x30 := s.x30, sp := s.sp - 16#64 - 16#64 - 16#64 - 16#64 - 16#64 - 16#64, nf := some t117.n, zf := some t117.z, cf := some t117.c, vf := some t117.v, mem := setMem (setMem (setMem (setMem (setMem (setMem (setMem (setMem (setMem (setMem (setMem (setMem (s.mem) (s.sp.toNat - 16) s.x19) (s.sp.toNat - 16 + 8) s.x20) (s.sp.toNat - 16 - 16) s.x21) (s.sp.toNat - 16 - 16 + 8) s.x22) (s.sp.toNat - 16 - 16 - 16) s.x23) (s.sp.toNat - 16 - 16 - 16 + 8) s.x24) (s.sp.toNat - 16 - 16 - 16 - 16) s.x25) (s.sp.toNat - 16 - 16 - 16 - 16 + 8) s.x26) (s.sp.toNat - 16 - 16 - 16 - 16 - 16) s.x27) (s.sp.toNat - 16 - 16 - 16 - 16 - 16 + 8) s.x28) (s.sp.toNat - 16 - 16 - 16 - 16 - 16 - 16) pp) (s.sp.toNat - 16 - 16 - 16 - 16 - 16 - 16 + 8) inv, readable := s.readable, writable := s.writable, pc := 118, status := .running } : State) 29
-      = ({ x0 := pr, x1 := l14, x2 := l141, x3 := t139.val, x4 := a2, x5 := a3, x6 := a4, x7 := a5, x8 := s.x8, x9 := b0, x10 := b1, x11 := b2, x12 := b3, x13 := b4, x14 := b5, x15 := t33.val, x16 := s.x16, x17 := s.x17, x18 := s.x18, x19 := t62.val, x20 := t91.val, x21 := t120.val, x22 := t125.val, x23 := t130.val, x24 := t135.val, x25 := t140.val, x26 := t145.val, x27 := t146.val, x28 := t52.val, x29 := s.x29, x30 := s.x30, sp := s.sp - 16#64 - 16#64 - 16#64 - 16#64 - 16#64 - 16#64, nf := some t146.n, zf := some t146.z, cf := some t146.c, vf := some t146.v, mem := setMem (setMem (setMem (setMem (setMem (setMem (setMem (setMem (setMem (setMem (setMem (setMem (s.mem) (s.sp.toNat - 16) s.x19) (s.sp.toNat - 16 + 8) s.x20) (s.sp.toNat - 16 - 16) s.x21) (s.sp.toNat - 16 - 16 + 8) s.x22) (s.sp.toNat - 16 - 16 - 16) s.x23) (s.sp.toNat - 16 - 16 - 16 + 8) s.x24) (s.sp.toNat - 16 - 16 - 16 - 16) s.x25) (s.sp.toNat - 16 - 16 - 16 - 16 + 8) s.x26) (s.sp.toNat - 16 - 16 - 16 - 16 - 16) s.x27) (s.sp.toNat - 16 - 16 - 16 - 16 - 16 + 8) s.x28) (s.sp.toNat - 16 - 16 - 16 - 16 - 16 - 16) pp) (s.sp.toNat - 16 - 16 - 16 - 16 - 16 - 16 + 8) inv, readable := s.readable, writable := s.writable, pc := 147, status := .running } : State) := by
-  obtain ⟨ra0, ra1, ra2, ra3, ra4, ra5⟩ := ha.r6
-  obtain ⟨⟨alra0, alra1, alra2, alra3, alra4, alra5⟩, fra1, fra2, fra3, fra4, fra5⟩ := ha.addr6
-  obtain ⟨rb0, rb1, rb2, rb3, rb4, rb5⟩ := hb.r6
-  obtain ⟨⟨alrb0, alrb1, alrb2, alrb3, alrb4, alrb5⟩, frb1, frb2, frb3, frb4, frb5⟩ := hb.addr6
-  obtain ⟨rp0, rp1, rp2, rp3, rp4, rp5⟩ := hp.r6
-  obtain ⟨⟨alrp0, alrp1, alrp2, alrp3, alrp4, alrp5⟩, frp1, frp2, frp3, frp4, frp5⟩ := hp.addr6
-  obtain ⟨rr0, rr1, rr2, rr3, rr4, rr5⟩ := hr.r6
-  obtain ⟨wr0, wr1, wr2, wr3, wr4, wr5⟩ := hr.w6
-  obtain ⟨⟨alrr0, alrr1, alrr2, alrr3, alrr4, alrr5⟩, frr1, frr2, frr3, frr4, frr5⟩ := hr.addr6
-  have als0 := hstk.aligned
-  obtain ⟨room1, als1, alq1a, alq1b, sr1a, sr1b, sw1a, sw1b⟩ := hstk.f1 (by omega)
-  obtain ⟨room2, als2, alq2a, alq2b, sr2a, sr2b, sw2a, sw2b⟩ := hstk.f2 (by omega)
-  obtain ⟨room3, als3, alq3a, alq3b, sr3a, sr3b, sw3a, sw3b⟩ := hstk.f3 (by omega)
-  obtain ⟨room4, als4, alq4a, alq4b, sr4a, sr4b, sw4a, sw4b⟩ := hstk.f4 (by omega)
-  obtain ⟨room5, als5, alq5a, alq5b, sr5a, sr5b, sw5a, sw5b⟩ := hstk.f5 (by omega)
-  obtain ⟨room6, als6, alq6a, alq6b, sr6a, sr6b, sw6a, sw6b⟩ := hstk.f6 (by omega)
-  replace hrs := Hide.mk (And.intro room6 hrs); replace has := Hide.mk (And.intro room6 has)
-  replace hbs := Hide.mk (And.intro room6 hbs); replace hps := Hide.mk (And.intro room6 hps)
-  simp only [OffStack] at hrs has hbs hps
-  clear ha hb hp hr hstk
-  a64_sym [← hl118, ← hh119, ← ht120, ← hl121, ← hh122, ← ht123, ← ht124, ← ht125, ← hl126, ← hh127, ← ht128, ← ht129, ← ht130, ← hl131, ← hh132, ← ht133, ← ht134, ← ht135, ← hl136, ← hh137, ← ht138, ← ht139, ← ht140, ← hl141, ← hh142, ← ht143, ← ht144, ← ht145, ← ht146]
-
-set_option maxHeartbeats 1600000 in
-theorem fpmul_part5 (s : State) (pr pa pb pp inv : Word)
-    (hr : Buf s pr 6 true) (ha : Buf s pa 6 false) (hb : Buf s pb 6 false) (hp : Buf s pp 6 false)
-    (hstk : Stack s 6) (hrs : OffStack s 6 pr 6) (has : OffStack s 6 pa 6) (hbs : OffStack s 6 pb 6)
-    (hps : OffStack s 6 pp 6) {a2 a3 a4 a5 b0 b1 b2 b3 b4 b5 l14 h148 h151 h156 h161 h166 h171 l141 l147 l150 l155 l160 l165 l170 : Word} {t33 t52 t62 t91 t120 t125 t130 t135 t139 t140 t145 t146 t149 t152 t153 t154 t157 t158 t159 t162 t163 t164 t167 t168 t169 t172 t173 t174 t175 : ArithRes}
-    (hl147 : l147 = mulLo a5 b0) (hh148 : h148 = mulHi a5 b0) (ht149 : t149 = addWithCarry t125.val l147 false)
-    (hl150 : l150 = mulLo a5 b1) (hh151 : h151 = mulHi a5 b1) (ht152 : t152 = addWithCarry t130.val l150 t149.c)
-    (ht153 : t153 = addWithCarry h151 (0 : Word) t152.c) (ht154 : t154 = addWithCarry t152.val h148 false)
-    (hl155 : l155 = mulLo a5 b2) (hh156 : h156 = mulHi a5 b2) (ht157 : t157 = addWithCarry t135.val l155 t154.c)
-    (ht158 : t158 = addWithCarry h156 (0 : Word) t157.c) (ht159 : t159 = addWithCarry t157.val t153.val false)
-    (hl160 : l160 = mulLo a5 b3) (hh161 : h161 = mulHi a5 b3) (ht162 : t162 = addWithCarry t140.val l160 t159.c)
-    (ht163 : t163 = addWithCarry h161 (0 : Word) t162.c) (ht164 : t164 = addWithCarry t162.val t158.val false)
-    (hl165 : l165 = mulLo a5 b4) (hh166 : h166 = mulHi a5 b4) (ht167 : t167 = addWithCarry t145.val l165 t164.c)
-    (ht168 : t168 = addWithCarry h166 (0 : Word) t167.c) (ht169 : t169 = addWithCarry t167.val t163.val false)
-    (hl170 : l170 = mulLo a5 b5) (hh171 : h171 = mulHi a5 b5) (ht172 : t172 = addWithCarry t146.val l170 t169.c)
-    (ht173 : t173 = addWithCarry h171 (0 : Word) t172.c) (ht174 : t174 = addWithCarry t172.val t168.val false)
-    (ht175 : t175 = addWithCarry t173.val (0 : Word) t174.c) :
-    run embedded_pairing_core_arch_aarch64_fpbase_384_multiply ({ x0 := pr, x1 := l14, x2 := l141, x3 := t139.val, x4 := a2, x5 := a3, x6 := a4, x7 := a5, x8 := s.x8, x9 := b0, x10 := b1, x11 := b2, x12 := b3, x13 := b4, x14 := b5, x15 := t33.val, x16 := s.x16, x17 := s.x17, x18 := s.x18, x19 := t62.val, x20 := t91.val, x21 := t120.val, x22 := t125.val, x23 := t130.val, x24 := t135.val, x25 := t140.val, x26 := t145.val, x27 := t146.val, x28 := t52.val, x29 := s.x29, x30 := s.x30, sp := s.sp - 16#64 - 16#64 - 16#64 - 16#64 - 16#64 - 16#64, nf := some t146.n, zf := some t146.z, cf := some t146.c, vf := some t146.v, mem := setMem (setMem (setMem (setMem (setMem (setMem (setMem (setMem (setMem (setMem (setMem (setMem (s.mem) (s.sp.toNat - 16) s.x19) (s.sp.toNat - 16 + 8) s.x20) (s.sp.toNat - 16 - 16) s.x21) (s.sp.toNat - 16 - 16 + 8) s.x22) (s.sp.toNat - 16 - 16 - 16) s.x23) (s.sp.toNat - 16 - 16 - 16 + 8) s.x24) (s.sp.toNat - 16 - 16 - 16 - 16) s.x25) (s.sp.toNat - 16 - 16 - 16 - 16 + 8) s.x26) (s.sp.toNat - 16 - 16 - 16 - 16 - 16) s.x27) (s.sp.toNat - 16 - 16 - 16 - 16 - 16 + 8) s.x28) (s.sp.toNat - 16 - 16 - 16 - 16 - 16 - 16) pp) (s.sp.toNat - 16 - 16 - 16 - 16 - 16 - 16 + 8) inv, readable := s.readable, writable := s.writable, pc := 147, status := .running } : State) 29
-      = ({ x0 := pr, x1 := l14, x2 := l170, x3 := t168.val, x4 := a2, x5 := a3, x6 := a4, x7 := a5, x8 := s.x8, x9 := b0, x10 := b1, x11 := b2, x12 := b3, x13 := b4, x14 := b5, x15 := t33.val, x16 := s.x16, x17 := s.x17, x18 := s.x18, x19 := t62.val, x20 := t91.val, x21 := t120.val, x22 := t149.val, x23 := t154.val, x24 := t159.val, x25 := t164.val, x26 := t169.val, x27 := t174.val, x28 := t175.val, x29 := s.x29, x30 := s.x30, sp := s.sp - 16#64 - 16#64 - 16#64 - 16#64 - 16#64 - 16#64, nf := some t175.n, zf := some t175.z, cf := some t175.c, vf := some t175.v, mem := setMem (setMem (setMem (setMem (setMem (setMem (setMem (setMem (setMem (setMem (setMem (setMem (s.mem) (s.sp.toNat - 16) s.x19) (s.sp.toNat - 16 + 8) s.x20) (s.sp.toNat - 16 - 16) s.x21) (s.sp.toNat - 16 - 16 + 8) s.x22) (s.sp.toNat - 16 - 16 - 16) s.x23) (s.sp.toNat - 16 - 16 - 16 + 8) s.x24) (s.sp.toNat - 16 - 16 - 16 - 16) s.x25) (s.sp.toNat - 16 - 16 - 16 - 16 + 8) s.x26) (s.sp.toNat - 16 - 16 - 16 - 16 - 16) s.x27) (s.sp.toNat - 16 - 16 - 16 - 16 - 16 + 8) s.x28) (s.sp.toNat - 16 - 16 - 16 - 16 - 16 - 16) pp) (s.sp.toNat - 16 - 16 - 16 - 16 - 16 - 16 + 8) inv, readable := s.readable, writable := s.writable, pc := 176, status := .running } : State) := by
-  obtain ⟨ra0, ra1, ra2, ra3, ra4, ra5⟩ := ha.r6
-  obtain ⟨⟨alra0, alra1, alra2, alra3, alra4, alra5⟩, fra1, fra2, fra3, fra4, fra5⟩ := ha.addr6
-  obtain ⟨rb0, rb1, rb2, rb3, rb4, rb5⟩ := hb.r6
-  obtain ⟨⟨alrb0, alrb1, alrb2, alrb3, alrb4, alrb5⟩, frb1, frb2, frb3, frb4, frb5⟩ := hb.addr6
-  obtain ⟨rp0, rp1, rp2, rp3, rp4, rp5⟩ := hp.r6
-  obtain ⟨⟨alrp0, alrp1, alrp2, alrp3, alrp4, alrp5⟩, frp1, frp2, frp3, frp4, frp5⟩ := hp.addr6
-  obtain ⟨rr0, rr1, rr2, rr3, rr4, rr5⟩ := hr.r6
-  obtain ⟨wr0, wr1, wr2, wr3, wr4, wr5⟩ := hr.w6
-  obtain ⟨⟨alrr0, alrr1, alrr2, alrr3, alrr4, alrr5⟩, frr1, frr2, frr3, frr4, frr5⟩ := hr.addr6
-  have als0 := hstk.aligned
-  obtain ⟨room1, als1, alq1a, alq1b, sr1a, sr1b, sw1a, sw1b⟩ := hstk.f1 (by omega)
-  obtain ⟨room2, als2, alq2a, alq2b, sr2a, sr2b, sw2a, sw2b⟩ := hstk.f2 (by omega)
-  obtain ⟨room3, als3, alq3a, alq3b, sr3a, sr3b, sw3a, sw3b⟩ := hstk.f3 (by omega)
-  obtain ⟨room4, als4, alq4a, alq4b, sr4a, sr4b, sw4a, sw4b⟩ := hstk.f4 (by omega)
-  obtain ⟨room5, als5, alq5a, alq5b, sr5a, sr5b, sw5a, sw5b⟩ := hstk.f5 (by omega)
-  obtain ⟨room6, als6, alq6a, alq6b, sr6a, sr6b, sw6a, sw6b⟩ := hstk.f6 (by omega)
-  replace hrs := Hide.mk (And.intro room6 hrs); replace has := Hide.mk (And.intro room6 has)
-  replace hbs := Hide.mk (And.intro room6 hbs); replace hps := Hide.mk (And.intro room6 hps)
-  simp only [OffStack] at hrs has hbs hps
-  clear ha hb hp hr hstk
-  a64_sym [← hl147, ← hh148, ← ht149, ← hl150, ← hh151, ← ht152, ← ht153, ← ht154, ← hl155, ← hh156, ← ht157, ← ht158, ← ht159, ← hl160, ← hh161, ← ht162, ← ht163, ← ht164, ← hl165, ← hh166, ← ht167, ← ht168, ← ht169, ← hl170, ← hh171, ← ht172, ← ht173, ← ht174, ← ht175]
-
-set_option maxHeartbeats 1600000 in
-theorem fpmul_part6 (s : State) (pr pa pb pp inv : Word)
-    (hr : Buf s pr 6 true) (ha : Buf s pa 6 false) (hb : Buf s pb 6 false) (hp : Buf s pp 6 false)
-    (hstk : Stack s 6) (hrs : OffStack s 6 pr 6) (has : OffStack s 6 pa 6) (hbs : OffStack s 6 pb 6)
-    (hps : OffStack s 6 pp 6) {a2 a3 a4 a5 b0 b1 b2 b3 b4 b5 p0 p1 p2 p3 p4 p5 l14 h182 h185 h190 h195 h200 h205 l170 l180 l181 l184 l189 l194 l199 l204 : Word} {t33 t62 t91 t120 t149 t154 t159 t164 t168 t169 t174 t175 t183 t186 t187 t188 t191 t192 t193 t196 t197 t198 t201 t202 t203 t206 t207 t208 t209 t210 : ArithRes}
-    (hp0 : p0 = s.mem pp.toNat) (hp1 : p1 = s.mem (pp.toNat + 8)) (hp2 : p2 = s.mem (pp.toNat + 16))
-    (hp3 : p3 = s.mem (pp.toNat + 24)) (hp4 : p4 = s.mem (pp.toNat + 32)) (hp5 : p5 = s.mem (pp.toNat + 40))
-    (hl180 : l180 = mulLo l14 inv) (hl181 : l181 = mulLo l180 p0) (hh182 : h182 = mulHi l180 p0)
-    (ht183 : t183 = addWithCarry l14 l181 false) (hl184 : l184 = mulLo l180 p1) (hh185 : h185 = mulHi l180 p1)
-    (ht186 : t186 = addWithCarry t33.val l184 t183.c) (ht187 : t187 = addWithCarry h185 (0 : Word) t186.c)
-    (ht188 : t188 = addWithCarry t186.val h182 false) (hl189 : l189 = mulLo l180 p2) (hh190 : h190 = mulHi l180 p2)
-    (ht191 : t191 = addWithCarry t62.val l189 t188.c) (ht192 : t192 = addWithCarry h190 (0 : Word) t191.c)
-    (ht193 : t193 = addWithCarry t191.val t187.val false) (hl194 : l194 = mulLo l180 p3) (hh195 : h195 = mulHi l180 p3)
-    (ht196 : t196 = addWithCarry t91.val l194 t193.c) (ht197 : t197 = addWithCarry h195 (0 : Word) t196.c)
-    (ht198 : t198 = addWithCarry t196.val t192.val false) (hl199 : l199 = mulLo l180 p4) (hh200 : h200 = mulHi l180 p4)
-    (ht201 : t201 = addWithCarry t120.val l199 t198.c) (ht202 : t202 = addWithCarry h200 (0 : Word) t201.c)
-    (ht203 : t203 = addWithCarry t201.val t197.val false) (hl204 : l204 = mulLo l180 p5) (hh205 : h205 = mulHi l180 p5)
-    (ht206 : t206 = addWithCarry t149.val l204 t203.c) (ht207 : t207 = addWithCarry h205 (0 : Word) t206.c)
-    (ht208 : t208 = addWithCarry t206.val t202.val false) (ht209 : t209 = addWithCarry t154.val t207.val t208.c)
-    (ht210 : t210 = addWithCarry (0 : Word) (0 : Word) t209.c) :
-    run embedded_pairing_core_arch_aarch64_fpbase_384_multiply ({ x0 := pr, x1 := l14, x2 := l170, x3 := t168.val, x4 := a2, x5 := a3, x6 := a4, x7 := a5, x8 := s.x8, x9 := b0, x10 := b1, x11 := b2, x12 := b3, x13 := b4, x14 := b5, x15 := t33.val, x16 := s.x16, x17 := s.x17, x18 := s.x18, x19 := t62.val, x20 := t91.val, x21 := t120.val, x22 := t149.val, x23 := t154.val, x24 := t159.val, x25 := t164.val, x26 := t169.val, x27 := t174.val, x28 := t175.val, x29 := s.x29, x30 := s.x30, sp := s.sp - 16#64 - 16#64 - 16#64 - 16#64 - 16#64 - 16#64, nf := some t175.n, zf := some t175.z, cf := some t175.c, vf := some t175.v, mem := setMem (setMem (setMem (setMem (setMem (setMem (setMem (setMem (setMem (setMem (setMem (setMem (s.mem) (s.sp.toNat - 16) s.x19) (s.sp.toNat - 16 + 8) s.x20) (s.sp.toNat - 16 - 16) s.x21) (s.sp.toNat - 16 - 16 + 8) s.x22) (s.sp.toNat - 16 - 16 - 16) s.x23) (s.sp.toNat - 16 - 16 - 16 + 8) s.x24) (s.sp.toNat - 16 - 16 - 16 - 16) s.x25) (s.sp.toNat - 16 - 16 - 16 - 16 + 8) s.x26) (s.sp.toNat - 16 - 16 - 16 - 16 - 16) s.x27) (s.sp.toNat - 16 - 16 - 16 - 16 - 16 + 8) s.x28) (s.sp.toNat - 16 - 16 - 16 - 16 - 16 - 16) pp) (s.sp.toNat - 16 - 16 - 16 - 16 - 16 - 16 + 8) inv, readable := s.readable, writable := s.writable, pc := 176, status := .running } : State) 35
-      = ({ x0 := pr, x1 := t210.val, x2 := l180, x3 := inv, x4 := t202.val, x5 := l204, x6 := a4, x7 := a5, x8 := s.x8, x9 := p0, x10 := p1, x11 := p2, x12 := p3, x13 := p4, x14 := p5, x15 := t188.val, x16 := s.x16, x17 := s.x17, x18 := s.x18, x19 := t193.val, x20 := t198.val, x21 := t203.val, x22 := t208.val, x23 := t209.val, x24 := t159.val, x25 := t164.val, x26 := t169.val, x27 := t174.val, x28 := t175.val, x29 := s.x29, x30 := s.x30, sp := s.sp - 16#64 - 16#64 - 16#64 - 16#64 - 16#64, nf := some t210.n, zf := some t210.z, cf := some t210.c, vf := some t210.v, mem := setMem (setMem (setMem (setMem (setMem (setMem (setMem (setMem (setMem (setMem (setMem (setMem (s.mem) (s.sp.toNat - 16) s.x19) (s.sp.toNat - 16 + 8) s.x20) (s.sp.toNat - 16 - 16) s.x21) (s.sp.toNat - 16 - 16 + 8) s.x22) (s.sp.toNat - 16 - 16 - 16) s.x23) (s.sp.toNat - 16 - 16 - 16 + 8) s.x24) (s.sp.toNat - 16 - 16 - 16 - 16) s.x25) (s.sp.toNat - 16 - 16 - 16 - 16 + 8) s.x26) (s.sp.toNat - 16 - 16 - 16 - 16 - 16) s.x27) (s.sp.toNat - 16 - 16 - 16 - 16 - 16 + 8) s.x28) (s.sp.toNat - 16 - 16 - 16 - 16 - 16 - 16) pp) (s.sp.toNat - 16 - 16 - 16 - 16 - 16 - 16 + 8) inv, readable := s.readable, writable := s.writable, pc := 211, status := .running } : State) := by
-  obtain ⟨ra0, ra1, ra2, ra3, ra4, ra5⟩ := ha.r6
-  obtain ⟨⟨alra0, alra1, alra2, alra3, alra4, alra5⟩, fra1, fra2, fra3, fra4, fra5⟩ := ha.addr6
-  obtain ⟨rb0, rb1, rb2, rb3, rb4, rb5⟩ := hb.r6
-  obtain ⟨⟨alrb0, alrb1, alrb2, alrb3, alrb4, alrb5⟩, frb1, frb2, frb3, frb4, frb5⟩ := hb.addr6
-  obtain ⟨rp0, rp1, rp2, rp3, rp4, rp5⟩ := hp.r6
-  obtain ⟨⟨alrp0, alrp1, alrp2, alrp3, alrp4, alrp5⟩, frp1, frp2, frp3, frp4, frp5⟩ := hp.addr6
-  obtain ⟨rr0, rr1, rr2, rr3, rr4, rr5⟩ := hr.r6
-  obtain ⟨wr0, wr1, wr2, wr3, wr4, wr5⟩ := hr.w6
-  obtain ⟨⟨alrr0, alrr1, alrr2, alrr3, alrr4, alrr5⟩, frr1, frr2, frr3, frr4, frr5⟩ := hr.addr6
-  have als0 := hstk.aligned
-  obtain ⟨room1, als1, alq1a, alq1b, sr1a, sr1b, sw1a, sw1b⟩ := hstk.f1 (by omega)
-  obtain ⟨room2, als2, alq2a, alq2b, sr2a, sr2b, sw2a, sw2b⟩ := hstk.f2 (by omega)
-  obtain ⟨room3, als3, alq3a, alq3b, sr3a, sr3b, sw3a, sw3b⟩ := hstk.f3 (by omega)
-  obtain ⟨room4, als4, alq4a, alq4b, sr4a, sr4b, sw4a, sw4b⟩ := hstk.f4 (by omega)
-  obtain ⟨room5, als5, alq5a, alq5b, sr5a, sr5b, sw5a, sw5b⟩ := hstk.f5 (by omega)
-  obtain ⟨room6, als6, alq6a, alq6b, sr6a, sr6b, sw6a, sw6b⟩ := hstk.f6 (by omega)
-  replace hrs := Hide.mk (And.intro room6 hrs); replace has := Hide.mk (And.intro room6 has)
-  replace hbs := Hide.mk (And.intro room6 hbs); replace hps := Hide.mk (And.intro room6 hps)
-  simp only [OffStack] at hrs has hbs hps
-  clear ha hb hp hr hstk
-  a64_sym [← hp0, ← hp1, ← hp2, ← hp3, ← hp4, ← hp5, ← hl180, ← hl181, ← hh182, ← ht183, ← hl184, ← hh185, ← ht186, ← ht187, ← ht188, ← hl189, ← hh190, ← ht191, ← ht192, ← ht193, ← hl194, ← hh195, ← ht196, ← ht197, ← ht198, ← hl199, ← hh200, ← ht201, ← ht202, ← ht203, ← hl204, ← hh205, ← ht206, ← ht207, ← ht208, ← ht209, ← ht210]
-
-set_option maxHeartbeats 1600000 in
-theorem fpmul_part7 (s : State) (pr pa pb pp inv : Word)
-    (hr : Buf s pr 6 true) (ha : Buf s pa 6 false) (hb : Buf s pb 6 false) (hp : Buf s pp 6 false)
-    (hstk : Stack s 6) (hrs : OffStack s 6 pr 6) (has : OffStack s 6 pa 6) (hbs : OffStack s 6 pb 6)
-    (hps : OffStack s 6 pp 6) {a4 a5 p0 p1 p2 p3 p4 p5 h213 h216 h221 h226 h231 h236 l180 l204 l211 l212 l215 l220 l225 l230 l235 : Word} {t159 t164 t169 t174 t175 t188 t193 t198 t202 t203 t208 t209 t210 t214 t217 t218 t219 t222 t223 t224 t227 t228 t229 t232 t233 t234 t237 t238 t239 t240 t241 t242 t243 : ArithRes}
-    (hl211 : l211 = mulLo t188.val inv) (hl212 : l212 = mulLo l211 p0) (hh213 : h213 = mulHi l211 p0)
-    (ht214 : t214 = addWithCarry t188.val l212 false) (hl215 : l215 = mulLo l211 p1) (hh216 : h216 = mulHi l211 p1)
-    (ht217 : t217 = addWithCarry t193.val l215 t214.c) (ht218 : t218 = addWithCarry h216 (0 : Word) t217.c)
-    (ht219 : t219 = addWithCarry t217.val h213 false) (hl220 : l220 = mulLo l211 p2) (hh221 : h221 = mulHi l211 p2)
-    (ht222 : t222 = addWithCarry t198.val l220 t219.c) (ht223 : t223 = addWithCarry h221 (0 : Word) t222.c)
-    (ht224 : t224 = addWithCarry t222.val t218.val false) (hl225 : l225 = mulLo l211 p3) (hh226 : h226 = mulHi l211 p3)
-    (ht227 : t227 = addWithCarry t203.val l225 t224.c) (ht228 : t228 = addWithCarry h226 (0 : Word) t227.c)
-    (ht229 : t229 = addWithCarry t227.val t223.val false) (hl230 : l230 = mulLo l211 p4) (hh231 : h231 = mulHi l211 p4)
-    (ht232 : t232 = addWithCarry t208.val l230 t229.c) (ht233 : t233 = addWithCarry h231 (0 : Word) t232.c)
-    (ht234 : t234 = addWithCarry t232.val t228.val false) (hl235 : l235 = mulLo l211 p5) (hh236 : h236 = mulHi l211 p5)
-    (ht237 : t237 = addWithCarry t209.val l235 t234.c) (ht238 : t238 = addWithCarry h236 (0 : Word) t237.c)
-    (ht239 : t239 = addWithCarry t237.val t233.val false) (ht240 : t240 = addWithCarry t238.val (0 : Word) t239.c)
-    (ht241 : t241 = addWithCarry t210.val (~~~1#64) true) (ht242 : t242 = addWithCarry t159.val t240.val t241.c)
-    (ht243 : t243 = addWithCarry (0 : Word) (0 : Word) t242.c) :
-    run embedded_pairing_core_arch_aarch64_fpbase_384_multiply ({ x0 := pr, x1 := t210.val, x2 := l180, x3 := inv, x4 := t202.val, x5 := l204, x6 := a4, x7 := a5, x8 := s.x8, x9 := p0, x10 := p1, x11 := p2, x12 := p3, x13 := p4, x14 := p5, x15 := t188.val, x16 := s.x16, x17 := s.x17, x18 := s.x18, x19 := t193.val, x20 := t198.val, x21 := t203.val, x22 := t208.val, x23 := t209.val, x24 := t159.val, x25 := t164.val, x26 := t169.val, x27 := t174.val, x28 := t175.val, x29 := s.x29, x30 := s.x30, sp := s.sp - 16#64 - 16#64 - 16#64 - 16#64 - 16#64, nf := some t210.n, zf := some t210.z, cf := some t210.c, vf := some t210.v, mem := setMem (setMem (setMem (setMem (setMem (setMem (setMem (setMem (setMem (setMem (setMem (setMem (s.mem) (s.sp.toNat - 16) s.x19) (s.sp.toNat - 16 + 8) s.x20) (s.sp.toNat - 16 - 16) s.x21) (s.sp.toNat - 16 - 16 + 8) s.x22) (s.sp.toNat - 16 - 16 - 16) s.x23) (s.sp.toNat - 16 - 16 - 16 + 8) s.x24) (s.sp.toNat - 16 - 16 - 16 - 16) s.x25) (s.sp.toNat - 16 - 16 - 16 - 16 + 8) s.x26) (s.sp.toNat - 16 - 16 - 16 - 16 - 16) s.x27) (s.sp.toNat - 16 - 16 - 16 - 16 - 16 + 8) s.x28) (s.sp.toNat - 16 - 16 - 16 - 16 - 16 - 16) pp) (s.sp.toNat - 16 - 16 - 16 - 16 - 16 - 16 + 8) inv, readable := s.readable, writable := s.writable, pc := 211, status := .running } : State) 33
-      = ({ x0 := pr, x1 := t243.val, x2 := l211, x3 := inv, x4 := t233.val, x5 := l235, x6 := a4, x7 := a5, x8 := s.x8, x9 := p0, x10 := p1, x11 := p2, x12 := p3, x13 := p4, x14 := p5, x15 := t240.val, x16 := s.x16, x17 := s.x17, x18 := s.x18, x19 := t219.val, x20 := t224.val, x21 := t229.val, x22 := t234.val, x23 := t239.val, x24 := t242.val, x25 := t164.val, x26 := t169.val, x27 := t174.val, x28 := t175.val, x29 := s.x29, x30 := s.x30, sp := s.sp - 16#64 - 16#64 - 16#64 - 16#64 - 16#64, nf := some t243.n, zf := some t243.z, cf := some t243.c, vf := some t243.v, mem := setMem (setMem (setMem (setMem (setMem (setMem (setMem (setMem (setMem (setMem (setMem (setMem (s.mem) (s.sp.toNat - 16) s.x19) (s.sp.toNat - 16 + 8) s.x20) (s.sp.toNat - 16 - 16) s.x21) (s.sp.toNat - 16 - 16 + 8) s.x22) (s.sp.toNat - 16 - 16 - 16) s.x23) (s.sp.toNat - 16 - 16 - 16 + 8) s.x24) (s.sp.toNat - 16 - 16 - 16 - 16) s.x25) (s.sp.toNat - 16 - 16 - 16 - 16 + 8) s.x26) (s.sp.toNat - 16 - 16 - 16 - 16 - 16) s.x27) (s.sp.toNat - 16 - 16 - 16 - 16 - 16 + 8) s.x28) (s.sp.toNat - 16 - 16 - 16 - 16 - 16 - 16) pp) (s.sp.toNat - 16 - 16 - 16 - 16 - 16 - 16 + 8) inv, readable := s.readable, writable := s.writable, pc := 244, status := .running } : State) := by
-  obtain ⟨ra0, ra1, ra2, ra3, ra4, ra5⟩ := ha.r6
-  obtain ⟨⟨alra0, alra1, alra2, alra3, alra4, alra5⟩, fra1, fra2, fra3, fra4, fra5⟩ := ha.addr6
-  obtain ⟨rb0, rb1, rb2, rb3, rb4, rb5⟩ := hb.r6
-  obtain ⟨⟨alrb0, alrb1, alrb2, alrb3, alrb4, alrb5⟩, frb1, frb2, frb3, frb4, frb5⟩ := hb.addr6
-  obtain ⟨rp0, rp1, rp2, rp3, rp4, rp5⟩ := hp.r6
-  obtain ⟨⟨alrp0, alrp1, alrp2, alrp3, alrp4, alrp5⟩, frp1, frp2, frp3, frp4, frp5⟩ := hp.addr6
-  obtain ⟨rr0, rr1, rr2, rr3, rr4, rr5⟩ := hr.r6
-  obtain ⟨wr0, wr1, wr2, wr3, wr4, wr5⟩ := hr.w6
-  obtain ⟨⟨alrr0, alrr1, alrr2, alrr3, alrr4, alrr5⟩, frr1, frr2, frr3, frr4, frr5⟩ := hr.addr6
-  have als0 := hstk.aligned
-  obtain ⟨room1, als1, alq1a, alq1b, sr1a, sr1b, sw1a, sw1b⟩ := hstk.f1 (by omega)
-  obtain ⟨room2, als2, alq2a, alq2b, sr2a, sr2b, sw2a, sw2b⟩ := hstk.f2 (by omega)
-  obtain ⟨room3, als3, alq3a, alq3b, sr3a, sr3b, sw3a, sw3b⟩ := hstk.f3 (by omega)
-  obtain ⟨room4, als4, alq4a, alq4b, sr4a, sr4b, sw4a, sw4b⟩ := hstk.f4 (by omega)
-  obtain ⟨room5, als5, alq5a, alq5b, sr5a, sr5b, sw5a, sw5b⟩ := hstk.f5 (by omega)
-  obtain ⟨room6, als6, alq6a, alq6b, sr6a, sr6b, sw6a, sw6b⟩ := hstk.f6 (by omega)
-  replace hrs := Hide.mk (And.intro room6 hrs); replace has := Hide.mk (And.intro room6 has)
-  replace hbs := Hide.mk (And.intro room6 hbs); replace hps := Hide.mk (And.intro room6 hps)
-  simp only [OffStack] at hrs has hbs hps
-  clear ha hb hp hr hstk
-  a64_sym [← hl211, ← hl212, ← hh213, ← ht214, ← hl215, ← hh216, ← ht217, ← ht218, ← ht219, ← hl220, ← hh221, ← ht222, ← ht223, ← ht224, ← hl225, ← hh226, ← ht227, ← ht228, ← ht229, ← hl230, ← hh231, ← ht232, ← ht233, ← ht234, ← hl235, ← hh236, ← ht237, ← ht238, ← ht239, ← ht240, ← ht241, ← ht242, ← ht243]
-
-set_option maxHeartbeats 1600000 in
-theorem fpmul_part8 (s : State) (pr pa pb pp inv : Word)
-    (hr : Buf s pr 6 true) (ha : Buf s pa 6 false) (hb : Buf s pb 6 false) (hp : Buf s pp 6 false)
-    (hstk : Stack s 6) (hrs : OffStack s 6 pr 6) (has : OffStack s 6 pa 6) (hbs : OffStack s 6 pb 6)
-    (hps : OffStack s 6 pp 6) {a4 a5 p0 p1 p2 p3 p4 p5 h246 h249 h254 h259 h264 h269 l211 l235 l244 l245 l248 l253 l258 l263 l268 : Word} {t164 t169 t174 t175 t219 t224 t229 t233 t234 t239 t240 t242 t243 t247 t250 t251 t252 t255 t256 t257 t260 t261 t262 t265 t266 t267 t270 t271 t272 t273 t274 t275 t276 : ArithRes}
-    (hl244 : l244 = mulLo t219.val inv) (hl245 : l245 = mulLo l244 p0) (hh246 : h246 = mulHi l244 p0)
-    (ht247 : t247 = addWithCarry t219.val l245 false) (hl248 : l248 = mulLo l244 p1) (hh249 : h249 = mulHi l244 p1)
-    (ht250 : t250 = addWithCarry t224.val l248 t247.c) (ht251 : t251 = addWithCarry h249 (0 : Word) t250.c)
-    (ht252 : t252 = addWithCarry t250.val h246 false) (hl253 : l253 = mulLo l244 p2) (hh254 : h254 = mulHi l244 p2)
-    (ht255 : t255 = addWithCarry t229.val l253 t252.c) (ht256 : t256 = addWithCarry h254 (0 : Word) t255.c)
-    (ht257 : t257 = addWithCarry t255.val t251.val false) (hl258 : l258 = mulLo l244 p3) (hh259 : h259 = mulHi l244 p3)
-    (ht260 : t260 = addWithCarry t234.val l258 t257.c) (ht261 : t261 = addWithCarry h259 (0 : Word) t260.c)
-    (ht262 : t262 = addWithCarry t260.val t256.val false) (hl263 : l263 = mulLo l244 p4) (hh264 : h264 = mulHi l244 p4)
-    (ht265 : t265 = addWithCarry t239.val l263 t262.c) (ht266 : t266 = addWithCarry h264 (0 : Word) t265.c)
-    (ht267 : t267 = addWithCarry t265.val t261.val false) (hl268 : l268 = mulLo l244 p5) (hh269 : h269 = mulHi l244 p5)
-    (ht270 : t270 = addWithCarry t242.val l268 t267.c) (ht271 : t271 = addWithCarry h269 (0 : Word) t270.c)
-    (ht272 : t272 = addWithCarry t270.val t266.val false) (ht273 : t273 = addWithCarry t271.val (0 : Word) t272.c)
-    (ht274 : t274 = addWithCarry t243.val (~~~1#64) true) (ht275 : t275 = addWithCarry t164.val t273.val t274.c)
-    (ht276 : t276 = addWithCarry (0 : Word) (0 : Word) t275.c) :
-    run embedded_pairing_core_arch_aarch64_fpbase_384_multiply ({ x0 := pr, x1 := t243.val, x2 := l211, x3 := inv, x4 := t233.val, x5 := l235, x6 := a4, x7 := a5, x8 := s.x8, x9 := p0, x10 := p1, x11 := p2, x12 := p3, x13 := p4, x14 := p5, x15 := t240.val, x16 := s.x16, x17 := s.x17, x18 := s.x18, x19 := t219.val, x20 := t224.val, x21 := t229.val, x22 := t234.val, x23 := t239.val, x24 := t242.val, x25 := t164.val, x26 := t169.val, x27 := t174.val, x28 := t175.val, x29 := s.x29, x30 := s.x30, sp := s.sp - 16#64 - 16#64 - 16#64 - 16#64 - 16#64, nf := some t243.n, zf := some t243.z, cf := some t243.c, vf := some t243.v, mem := setMem (setMem (setMem (setMem (setMem (setMem (setMem (setMem (setMem (setMem (setMem (setMem (s.mem) (s.sp.toNat - 16) s.x19) (s.sp.toNat - 16 + 8) s.x20) (s.sp.toNat - 16 - 16) s.x21) (s.sp.toNat - 16 - 16 + 8) s.x22) (s.sp.toNat - 16 - 16 - 16) s.x23) (s.sp.toNat - 16 - 16 - 16 + 8) s.x24) (s.sp.toNat - 16 - 16 - 16 - 16) s.x25) (s.sp.toNat - 16 - 16 - 16 - 16 + 8) s.x26) (s.sp.toNat - 16 - 16 - 16 - 16 - 16) s.x27) (s.sp.toNat - 16 - 16 - 16 - 16 - 16 + 8) s.x28) (s.sp.toNat - 16 - 16 - 16 - 16 - 16 - 16) pp) (s.sp.toNat - 16 - 16 - 16 - 16 - 16 - 16 + 8) inv, readable := s.readable, writable := s.writable, pc := 244, status := .running } : State) 33
-      = ({ x0 := pr, x1 := t276.val, x2 := l244, x3 := inv, x4 := t266.val, x5 := l268, x6 := a4, x7 := a5, x8 := s.x8, x9 := p0, x10 := p1, x11 := p2, x12 := p3, x13 := p4, x14 := p5, x15 := t240.val, x16 := s.x16, x17 := s.x17, x18 := s.x18, x19 := t273.val, x20 := t252.val, x21 := t257.val, x22 := t262.val, x23 := t267.val, x24 := t272.val, x25 := t275.val, x26 := t169.val, x27 := t174.val, x28 := t175.val, x29 := s.x29, x30 := s.x30, sp := s.sp - 16#64 - 16#64 - 16#64 - 16#64 - 16#64, nf := some t276.n, zf := some t276.z, cf := some t276.c, vf := some t276.v, mem := setMem (setMem (setMem (setMem (setMem (setMem (setMem (setMem (setMem (setMem (setMem (setMem (s.mem) (s.sp.toNat - 16) s.x19) (s.sp.toNat - 16 + 8) s.x20) (s.sp.toNat - 16 - 16) s.x21) (s.sp.toNat - 16 - 16 + 8) s.x22) (s.sp.toNat - 16 - 16 - 16) s.x23) (s.sp.toNat - 16 - 16 - 16 + 8) s.x24) (s.sp.toNat - 16 - 16 - 16 - 16) s.x25) (s.sp.toNat - 16 - 16 - 16 - 16 + 8) s.x26) (s.sp.toNat - 16 - 16 - 16 - 16 - 16) s.x27) (s.sp.toNat - 16 - 16 - 16 - 16 - 16 + 8) s.x28) (s.sp.toNat - 16 - 16 - 16 - 16 - 16 - 16) pp) (s.sp.toNat - 16 - 16 - 16 - 16 - 16 - 16 + 8) inv, readable := s.readable, writable := s.writable, pc := 277, status := .running } : State) := by
-  obtain ⟨ra0, ra1, ra2, ra3, ra4, ra5⟩ := ha.r6
-  obtain ⟨⟨alra0, alra1, alra2, alra3, alra4, alra5⟩, fra1, fra2, fra3, fra4, fra5⟩ := ha.addr6
-  obtain ⟨rb0, rb1, rb2, rb3, rb4, rb5⟩ := hb.r6
-  obtain ⟨⟨alrb0, alrb1, alrb2, alrb3, alrb4, alrb5⟩, frb1, frb2, frb3, frb4, frb5⟩ := hb.addr6
-  obtain ⟨rp0, rp1, rp2, rp3, rp4, rp5⟩ := hp.r6
-  obtain ⟨⟨alrp0, alrp1, alrp2, alrp3, alrp4, alrp5⟩, frp1, frp2, frp3, frp4, frp5⟩ := hp.addr6
-  obtain ⟨rr0, rr1, rr2, rr3, rr4, rr5⟩ := hr.r6
-  obtain ⟨wr0, wr1, wr2, wr3, wr4, wr5⟩ := hr.w6
-  obtain ⟨⟨alrr0, alrr1, alrr2, alrr3, alrr4, alrr5⟩, frr1, frr2, frr3, frr4, frr5⟩ := hr.addr6
-  have als0 := hstk.aligned
-  obtain ⟨room1, als1, alq1a, alq1b, sr1a, sr1b, sw1a, sw1b⟩ := hstk.f1 (by omega)
-  obtain ⟨room2, als2, alq2a, alq2b, sr2a, sr2b, sw2a, sw2b⟩ := hstk.f2 (by omega)
-  obtain ⟨room3, als3, alq3a, alq3b, sr3a, sr3b, sw3a, sw3b⟩ := hstk.f3 (by omega)
-  obtain ⟨room4, als4, alq4a, alq4b, sr4a, sr4b, sw4a, sw4b⟩ := hstk.f4 (by omega)
-  obtain ⟨room5, als5, alq5a, alq5b, sr5a, sr5b, sw5a, sw5b⟩ := hstk.f5 (by omega)
-  obtain ⟨room6, als6, alq6a, alq6b, sr6a, sr6b, sw6a, sw6b⟩ := hstk.f6 (by omega)
-  replace hrs := Hide.mk (And.intro room6 hrs); replace has := Hide.mk (And.intro room6 has)
-  replace hbs := Hide.mk (And.intro room6 hbs); replace hps := Hide.mk (And.intro room6 hps)
-  simp only [OffStack] at hrs has hbs hps
-  clear ha hb hp hr hstk
-  a64_sym [← hl244, ← hl245, ← hh246, ← ht247, ← hl248, ← hh249, ← ht250, ← ht251, ← ht252, ← hl253, ← hh254, ← ht255, ← ht256, ← ht257, ← hl258, ← hh259, ← ht260, ← ht261, ← ht262, ← hl263, ← hh264, ← ht265, ← ht266, ← ht267, ← hl268, ← hh269, ← ht270, ← ht271, ← ht272, ← ht273, ← ht274, ← ht275, ← ht276]
-
-set_option maxHeartbeats 1600000 in
-theorem fpmul_part9 (s : State) (pr pa pb pp inv : Word)
-    (hr : Buf s pr 6 true) (ha : Buf s pa 6 false) (hb : Buf s pb 6 false) (hp : Buf s pp 6 false)
-    (hstk : Stack s 6) (hrs : OffStack s 6 pr 6) (has : OffStack s 6 pa 6) (hbs : OffStack s 6 pb 6)
-    (hps : OffStack s 6 pp 6) {a4 a5 p0 p1 p2 p3 p4 p5 h279 h282 h287 h292 h297 h302 l244 l268 l277 l278 l281 l286 l291 l296 l301 : Word} {t169 t174 t175 t240 t252 t257 t262 t266 t267 t272 t273 t275 t276 t280 t283 t284 t285 t288 t289 t290 t293 t294 t295 t298 t299 t300 t303 t304 t305 t306 t307 t308 t309 : ArithRes}
-    (hl277 : l277 = mulLo t252.val inv) (hl278 : l278 = mulLo l277 p0) (hh279 : h279 = mulHi l277 p0)
-    (ht280 : t280 = addWithCarry t252.val l278 false) (hl281 : l281 = mulLo l277 p1) (hh282 : h282 = mulHi l277 p1)
-    (ht283 : t283 = addWithCarry t257.val l281 t280.c) (ht284 : t284 = addWithCarry h282 (0 : Word) t283.c)
-    (ht285 : t285 = addWithCarry t283.val h279 false) (hl286 : l286 = mulLo l277 p2) (hh287 : h287 = mulHi l277 p2)
-    (ht288 : t288 = addWithCarry t262.val l286 t285.c) (ht289 : t289 = addWithCarry h287 (0 : Word) t288.c)
-    (ht290 : t290 = addWithCarry t288.val t284.val false) (hl291 : l291 = mulLo l277 p3) (hh292 : h292 = mulHi l277 p3)
-    (ht293 : t293 = addWithCarry t267.val l291 t290.c) (ht294 : t294 = addWithCarry h292 (0 : Word) t293.c)
-    (ht295 : t295 = addWithCarry t293.val t289.val false) (hl296 : l296 = mulLo l277 p4) (hh297 : h297 = mulHi l277 p4)
-    (ht298 : t298 = addWithCarry t272.val l296 t295.c) (ht299 : t299 = addWithCarry h297 (0 : Word) t298.c)
-    (ht300 : t300 = addWithCarry t298.val t294.val false) (hl301 : l301 = mulLo l277 p5) (hh302 : h302 = mulHi l277 p5)
-    (ht303 : t303 = addWithCarry t275.val l301 t300.c) (ht304 : t304 = addWithCarry h302 (0 : Word) t303.c)
-    (ht305 : t305 = addWithCarry t303.val t299.val false) (ht306 : t306 = addWithCarry t304.val (0 : Word) t305.c)
-    (ht307 : t307 = addWithCarry t276.val (~~~1#64) true) (ht308 : t308 = addWithCarry t169.val t306.val t307.c)
-    (ht309 : t309 = addWithCarry (0 : Word) (0 : Word) t308.c) :
-    run embedded_pairing_core_arch_aarch64_fpbase_384_multiply ({ x0 := pr, x1 := t276.val, x2 := l244, x3 := inv, x4 := t266.val, x5 := l268, x6 := a4, x7 := a5, x8 := s.x8, x9 := p0, x10 := p1, x11 := p2, x12 := p3, x13 := p4, x14 := p5, x15 := t240.val, x16 := s.x16, x17 := s.x17, x18 := s.x18, x19 := t273.val, x20 := t252.val, x21 := t257.val, x22 := t262.val, x23 := t267.val, x24 := t272.val, x25 := t275.val, x26 := t169.val, x27 := t174.val, x28 := t175.val, x29 := s.x29, x30 := s.x30, sp := s.sp - 16#64 - 16#64 - 16#64 - 16#64 - 16#64, nf := some t276.n, zf := some t276.z, cf := some t276.c, vf := some t276.v, mem := setMem (setMem (setMem (setMem (setMem (setMem (setMem (setMem (setMem (setMem (setMem (setMem (s.mem) (s.sp.toNat - 16) s.x19) (s.sp.toNat - 16 + 8) s.x20) (s.sp.toNat - 16 - 16) s.x21) (s.sp.toNat - 16 - 16 + 8) s.x22) (s.sp.toNat - 16 - 16 - 16) s.x23) (s.sp.toNat - 16 - 16 - 16 + 8) s.x24) (s.sp.toNat - 16 - 16 - 16 - 16) s.x25) (s.sp.toNat - 16 - 16 - 16 - 16 + 8) s.x26) (s.sp.toNat - 16 - 16 - 16 - 16 - 16) s.x27) (s.sp.toNat - 16 - 16 - 16 - 16 - 16 + 8) s.x28) (s.sp.toNat - 16 - 16 - 16 - 16 - 16 - 16) pp) (s.sp.toNat - 16 - 16 - 16 - 16 - 16 - 16 + 8) inv, readable := s.readable, writable := s.writable, pc := 277, status := .running } : State) 33
-      = ({ x0 := pr, x1 := t309.val, x2 := l277, x3 := inv, x4 := t299.val, x5 := l301, x6 := a4, x7 := a5, x8 := s.x8, x9 := p0, x10 := p1, x11 := p2, x12 := p3, x13 := p4, x14 := p5, x15 := t240.val, x16 := s.x16, x17 := s.x17, x18 := s.x18, x19 := t273.val, x20 := t306.val, x21 := t285.val, x22 := t290.val, x23 := t295.val, x24 := t300.val, x25 := t305.val, x26 := t308.val, x27 := t174.val, x28 := t175.val, x29 := s.x29, x30 := s.x30, sp := s.sp - 16#64 - 16#64 - 16#64 - 16#64 - 16#64, nf := some t309.n, zf := some t309.z, cf := some t309.c, vf := some t309.v, mem := setMem (setMem (setMem (setMem (setMem (setMem (setMem (setMem (setMem (setMem (setMem (setMem (s.mem) (s.sp.toNat - 16) s.x19) (s.sp.toNat - 16 + 8) s.x20) (s.sp.toNat - 16 - 16) s.x21) (s.sp.toNat - 16 - 16 + 8) s.x22) (s.sp.toNat - 16 - 16 - 16) s.x23) (s.sp.toNat - 16 - 16 - 16 + 8) s.x24) (s.sp.toNat - 16 - 16 - 16 - 16) s.x25) (s.sp.toNat - 16 - 16 - 16 - 16 + 8) s.x26) (s.sp.toNat - 16 - 16 - 16 - 16 - 16) s.x27) (s.sp.toNat - 16 - 16 - 16 - 16 - 16 + 8) s.x28) (s.sp.toNat - 16 - 16 - 16 - 16 - 16 - 16) pp) (s.sp.toNat - 16 - 16 - 16 - 16 - 16 - 16 + 8) inv, readable := s.readable, writable := s.writable, pc := 310, status := .running } : State) := by
-  obtain ⟨ra0, ra1, ra2, ra3, ra4, ra5⟩ := ha.r6
-  obtain ⟨⟨alra0, alra1, alra2, alra3, alra4, alra5⟩, fra1, fra2, fra3, fra4, fra5⟩ := ha.addr6
-  obtain ⟨rb0, rb1, rb2, rb3, rb4, rb5⟩ := hb.r6
-  obtain ⟨⟨alrb0, alrb1, alrb2, alrb3, alrb4, alrb5⟩, frb1, frb2, frb3, frb4, frb5⟩ := hb.addr6
-  obtain ⟨rp0, rp1, rp2, rp3, rp4, rp5⟩ := hp.r6
-  obtain ⟨⟨alrp0, alrp1, alrp2, alrp3, alrp4, alrp5⟩, frp1, frp2, frp3, frp4, frp5⟩ := hp.addr6
-  obtain ⟨rr0, rr1, rr2, rr3, rr4, rr5⟩ := hr.r6
-  obtain ⟨wr0, wr1, wr2, wr3, wr4, wr5⟩ := hr.w6
-  obtain ⟨⟨alrr0, alrr1, alrr2, alrr3, alrr4, alrr5⟩, frr1, frr2, frr3, frr4, frr5⟩ := hr.addr6
-  have als0 := hstk.aligned
-  obtain ⟨room1, als1, alq1a, alq1b, sr1a, sr1b, sw1a, sw1b⟩ := hstk.f1 (by omega)
-  obtain ⟨room2, als2, alq2a, alq2b, sr2a, sr2b, sw2a, sw2b⟩ := hstk.f2 (by omega)
-  obtain ⟨room3, als3, alq3a, alq3b, sr3a, sr3b, sw3a, sw3b⟩ := hstk.f3 (by omega)
-  obtain ⟨room4, als4, alq4a, alq4b, sr4a, sr4b, sw4a, sw4b⟩ := hstk.f4 (by omega)
-  obtain ⟨room5, als5, alq5a, alq5b, sr5a, sr5b, sw5a, sw5b⟩ := hstk.f5 (by omega)
-  obtain ⟨room6, als6, alq6a, alq6b, sr6a, sr6b, sw6a, sw6b⟩ := hstk.f6 (by omega)
-  replace hrs := Hide.mk (And.intro room6 hrs); replace has := Hide.mk (And.intro room6 has)
-  replace hbs := Hide.mk (And.intro room6 hbs); replace hps := Hide.mk (And.intro room6 hps)
-  simp only [OffStack] at hrs has hbs hps
-  clear ha hb hp hr hstk
-  a64_sym [← hl277, ← hl278, ← hh279, ← ht280, ← hl281, ← hh282, ← ht283, ← ht284, ← ht285, ← hl286, ← hh287, ← ht288, ← ht289, ← ht290, ← hl291, ← hh292, ← ht293, ← ht294, ← ht295, ← hl296, ← hh297, ← ht298, ← ht299, ← ht300, ← hl301, ← hh302, ← ht303, ← ht304, ← ht305, ← ht306, ← ht307, ← ht308, ← ht309]
-
-set_option maxHeartbeats 1600000 in
-theorem fpmul_part10 (s : State) (pr pa pb pp inv : Word)
-    (hr : Buf s pr 6 true) (ha : Buf s pa 6 false) (hb : Buf s pb 6 false) (hp : Buf s pp 6 false)
-    (hstk : Stack s 6) (hrs : OffStack s 6 pr 6) (has : OffStack s 6 pa 6) (hbs : OffStack s 6 pb 6)
-    (hps : OffStack s 6 pp 6) {a4 a5 p0 p1 p2 p3 p4 p5 h312 h315 h320 h325 h330 h335 l277 l301 l310 l311 l314 l319 l324 l329 l334 : Word} {t174 t175 t240 t273 t285 t290 t295 t299 t300 t305 t306 t308 t309 t313 t316 t317 t318 t321 t322 t323 t326 t327 t328 t331 t332 t333 t336 t337 t338 t339 t340 t341 t342 : ArithRes}
-    (hl310 : l310 = mulLo t285.val inv) (hl311 : l311 = mulLo l310 p0) (hh312 : h312 = mulHi l310 p0)
-    (ht313 : t313 = addWithCarry t285.val l311 false) (hl314 : l314 = mulLo l310 p1) (hh315 : h315 = mulHi l310 p1)
-    (ht316 : t316 = addWithCarry t290.val l314 t313.c) (ht317 : t317 = addWithCarry h315 (0 : Word) t316.c)
-    (ht318 : t318 = addWithCarry t316.val h312 false) (hl319 : l319 = mulLo l310 p2) (hh320 : h320 = mulHi l310 p2)
-    (ht321 : t321 = addWithCarry t295.val l319 t318.c) (ht322 : t322 = addWithCarry h320 (0 : Word) t321.c)
-    (ht323 : t323 = addWithCarry t321.val t317.val false) (hl324 : l324 = mulLo l310 p3) (hh325 : h325 = mulHi l310 p3)
-    (ht326 : t326 = addWithCarry t300.val l324 t323.c) (ht327 : t327 = addWithCarry h325 (0 : Word) t326.c)
-    (ht328 : t328 = addWithCarry t326.val t322.val false) (hl329 : l329 = mulLo l310 p4) (hh330 : h330 = mulHi l310 p4)
-    (ht331 : t331 = addWithCarry t305.val l329 t328.c) (ht332 : t332 = addWithCarry h330 (0 : Word) t331.c)
-    (ht333 : t333 = addWithCarry t331.val t327.val false) (hl334 : l334 = mulLo l310 p5) (hh335 : h335 = mulHi l310 p5)
-    (ht336 : t336 = addWithCarry t308.val l334 t333.c) (ht337 : t337 = addWithCarry h335 (0 : Word) t336.c)
-    (ht338 : t338 = addWithCarry t336.val t332.val false) (ht339 : t339 = addWithCarry t337.val (0 : Word) t338.c)
-    (ht340 : t340 = addWithCarry t309.val (~~~1#64) true) (ht341 : t341 = addWithCarry t174.val t339.val t340.c)
-    (ht342 : t342 = addWithCarry (0 : Word) (0 : Word) t341.c) :
-    run embedded_pairing_core_arch_aarch64_fpbase_384_multiply ({ x0 := pr, x1 := t309.val, x2 := l277, x3 := inv, x4 := t299.val, x5 := l301, x6 := a4, x7 := a5, x8 := s.x8, x9 := p0, x10 := p1, x11 := p2, x12 := p3, x13 := p4, x14 := p5, x15 := t240.val, x16 := s.x16, x17 := s.x17, x18 := s.x18, x19 := t273.val, x20 := t306.val, x21 := t285.val, x22 := t290.val, x23 := t295.val, x24 := t300.val, x25 := t305.val, x26 := t308.val, x27 := t174.val, x28 := t175.val, x29 := s.x29, x30 := s.x30, sp := s.sp - 16#64 - 16#64 - 16#64 - 16#64 - 16#64, nf := some t309.n, zf := some t309.z, cf := some t309.c, vf := some t309.v, mem := setMem (setMem (setMem (setMem (setMem (setMem (setMem (setMem (setMem (setMem (setMem (setMem (s.mem) (s.sp.toNat - 16) s.x19) (s.sp.toNat - 16 + 8) s.x20) (s.sp.toNat - 16 - 16) s.x21) (s.sp.toNat - 16 - 16 + 8) s.x22) (s.sp.toNat - 16 - 16 - 16) s.x23) (s.sp.toNat - 16 - 16 - 16 + 8) s.x24) (s.sp.toNat - 16 - 16 - 16 - 16) s.x25) (s.sp.toNat - 16 - 16 - 16 - 16 + 8) s.x26) (s.sp.toNat - 16 - 16 - 16 - 16 - 16) s.x27) (s.sp.toNat - 16 - 16 - 16 - 16 - 16 + 8) s.x28) (s.sp.toNat - 16 - 16 - 16 - 16 - 16 - 16) pp) (s.sp.toNat - 16 - 16 - 16 - 16 - 16 - 16 + 8) inv, readable := s.readable, writable := s.writable, pc := 310, status := .running } : State) 33
-      = ({ x0 := pr, x1 := t342.val, x2 := l310, x3 := inv, x4 := t332.val, x5 := l334, x6 := a4, x7 := a5, x8 := s.x8, x9 := p0, x10 := p1, x11 := p2, x12 := p3, x13 := p4, x14 := p5, x15 := t240.val, x16 := s.x16, x17 := s.x17, x18 := s.x18, x19 := t273.val, x20 := t306.val, x21 := t339.val, x22 := t318.val, x23 := t323.val, x24 := t328.val, x25 := t333.val, x26 := t338.val, x27 := t341.val, x28 := t175.val, x29 := s.x29, x30 := s.x30, sp := s.sp - 16#64 - 16#64 - 16#64 - 16#64 - 16#64, nf := some t342.n, zf := some t342.z, cf := some t342.c, vf := some t342.v, mem := setMem (setMem (setMem (setMem (setMem (setMem (setMem (setMem (setMem (setMem (setMem (setMem (s.mem) (s.sp.toNat - 16) s.x19) (s.sp.toNat - 16 + 8) s.x20) (s.sp.toNat - 16 - 16) s.x21) (s.sp.toNat - 16 - 16 + 8) s.x22) (s.sp.toNat - 16 - 16 - 16) s.x23) (s.sp.toNat - 16 - 16 - 16 + 8) s.x24) (s.sp.toNat - 16 - 16 - 16 - 16) s.x25) (s.sp.toNat - 16 - 16 - 16 - 16 + 8) s.x26) (s.sp.toNat - 16 - 16 - 16 - 16 - 16) s.x27) (s.sp.toNat - 16 - 16 - 16 - 16 - 16 + 8) s.x28) (s.sp.toNat - 16 - 16 - 16 - 16 - 16 - 16) pp) (s.sp.toNat - 16 - 16 - 16 - 16 - 16 - 16 + 8) inv, readable := s.readable, writable := s.writable, pc := 343, status := .running } : State) := by
-  obtain ⟨ra0, ra1, ra2, ra3, ra4, ra5⟩ := ha.r6
-  obtain ⟨⟨alra0, alra1, alra2, alra3, alra4, alra5⟩, fra1, fra2, fra3, fra4, fra5⟩ := ha.addr6
-  obtain ⟨rb0, rb1, rb2, rb3, rb4, rb5⟩ := hb.r6
-  obtain ⟨⟨alrb0, alrb1, alrb2, alrb3, alrb4, alrb5⟩, frb1, frb2, frb3, frb4, frb5⟩ := hb.addr6
-  obtain ⟨rp0, rp1, rp2, rp3, rp4, rp5⟩ := hp.r6
-  obtain ⟨⟨alrp0, alrp1, alrp2, alrp3, alrp4, alrp5⟩, frp1, frp2, frp3, frp4, frp5⟩ := hp.addr6
-  obtain ⟨rr0, rr1, rr2, rr3, rr4, rr5⟩ := hr.r6
-  obtain ⟨wr0, wr1, wr2, wr3, wr4, wr5⟩ := hr.w6
-  obtain ⟨⟨alrr0, alrr1, alrr2, alrr3, alrr4, alrr5⟩, frr1, frr2, frr3, frr4, frr5⟩ := hr.addr6
-  have als0 := hstk.aligned
-  obtain ⟨room1, als1, alq1a, alq1b, sr1a, sr1b, sw1a, sw1b⟩ := hstk.f1 (by omega)
-  obtain ⟨room2, als2, alq2a, alq2b, sr2a, sr2b, sw2a, sw2b⟩ := hstk.f2 (by omega)
-  obtain ⟨room3, als3, alq3a, alq3b, sr3a, sr3b, sw3a, sw3b⟩ := hstk.f3 (by omega)
-  obtain ⟨room4, als4, alq4a, alq4b, sr4a, sr4b, sw4a, sw4b⟩ := hstk.f4 (by omega)
-  obtain ⟨room5, als5, alq5a, alq5b, sr5a, sr5b, sw5a, sw5b⟩ := hstk.f5 (by omega)
-  obtain ⟨room6, als6, alq6a, alq6b, sr6a, sr6b, sw6a, sw6b⟩ := hstk.f6 (by omega)
-  replace hrs := Hide.mk (And.intro room6 hrs); replace has := Hide.mk (And.intro room6 has)
-  replace hbs := Hide.mk (And.intro room6 hbs); replace hps := Hide.mk (And.intro room6 hps)
-  simp only [OffStack] at hrs has hbs hps
-  clear ha hb hp hr hstk
-  a64_sym [← hl310, ← hl311, ← hh312, ← ht313, ← hl314, ← hh315, ← ht316, ← ht317, ← ht318, ← hl319, ← hh320, ← ht321, ← ht322, ← ht323, ← hl324, ← hh325, ← ht326, ← ht327, ← ht328, ← hl329, ← hh330, ← ht331, ← ht332, ← ht333, ← hl334, ← hh335, ← ht336, ← ht337, ← ht338, ← ht339, ← ht340, ← ht341, ← ht342]
-
-set_option maxHeartbeats 1600000 in
-theorem fpmul_part11 (s : State) (pr pa pb pp inv : Word)
-    (hr : Buf s pr 6 true) (ha : Buf s pa 6 false) (hb : Buf s pb 6 false) (hp : Buf s pp 6 false)
-    (hstk : Stack s 6) (hrs : OffStack s 6 pr 6) (has : OffStack s 6 pa 6) (hbs : OffStack s 6 pb 6)
-    (hps : OffStack s 6 pp 6) {a4 a5 p0 p1 p2 p3 p4 p5 h345 h348 h353 h358 h363 h368 l310 l334 l343 l344 l347 l352 l357 l362 l367 : Word} {t175 t240 t273 t306 t318 t323 t328 t332 t333 t338 t339 t341 t342 t346 t349 t350 t351 t354 t355 t356 t359 t360 t361 t364 t365 t366 t369 t370 t371 t372 t373 t374 : ArithRes}
-    (hl343 : l343 = mulLo t318.val inv) (hl344 : l344 = mulLo l343 p0) (hh345 : h345 = mulHi l343 p0)
-    (ht346 : t346 = addWithCarry t318.val l344 false) (hl347 : l347 = mulLo l343 p1) (hh348 : h348 = mulHi l343 p1)
-    (ht349 : t349 = addWithCarry t323.val l347 t346.c) (ht350 : t350 = addWithCarry h348 (0 : Word) t349.c)
-    (ht351 : t351 = addWithCarry t349.val h345 false) (hl352 : l352 = mulLo l343 p2) (hh353 : h353 = mulHi l343 p2)
-    (ht354 : t354 = addWithCarry t328.val l352 t351.c) (ht355 : t355 = addWithCarry h353 (0 : Word) t354.c)
-    (ht356 : t356 = addWithCarry t354.val t350.val false) (hl357 : l357 = mulLo l343 p3) (hh358 : h358 = mulHi l343 p3)
-    (ht359 : t359 = addWithCarry t333.val l357 t356.c) (ht360 : t360 = addWithCarry h358 (0 : Word) t359.c)
-    (ht361 : t361 = addWithCarry t359.val t355.val false) (hl362 : l362 = mulLo l343 p4) (hh363 : h363 = mulHi l343 p4)
-    (ht364 : t364 = addWithCarry t338.val l362 t361.c) (ht365 : t365 = addWithCarry h363 (0 : Word) t364.c)
-    (ht366 : t366 = addWithCarry t364.val t360.val false) (hl367 : l367 = mulLo l343 p5) (hh368 : h368 = mulHi l343 p5)
-    (ht369 : t369 = addWithCarry t341.val l367 t366.c) (ht370 : t370 = addWithCarry h368 (0 : Word) t369.c)
-    (ht371 : t371 = addWithCarry t369.val t365.val false) (ht372 : t372 = addWithCarry t370.val (0 : Word) t371.c)
-    (ht373 : t373 = addWithCarry t342.val (~~~1#64) true) (ht374 : t374 = addWithCarry t175.val t372.val t373.c) :
-    run embedded_pairing_core_arch_aarch64_fpbase_384_multiply ({ x0 := pr, x1 := t342.val, x2 := l310, x3 := inv, x4 := t332.val, x5 := l334, x6 := a4, x7 := a5, x8 := s.x8, x9 := p0, x10 := p1, x11 := p2, x12 := p3, x13 := p4, x14 := p5, x15 := t240.val, x16 := s.x16, x17 := s.x17, x18 := s.x18, x19 := t273.val, x20 := t306.val, x21 := t339.val, x22 := t318.val, x23 := t323.val, x24 := t328.val, x25 := t333.val, x26 := t338.val, x27 := t341.val, x28 := t175.val, x29 := s.x29, x30 := s.x30, sp := s.sp - 16#64 - 16#64 - 16#64 - 16#64 - 16#64, nf := some t342.n, zf := some t342.z, cf := some t342.c, vf := some t342.v, mem := setMem (setMem (setMem (setMem (setMem (setMem (setMem (setMem (setMem (setMem (setMem (setMem (s.mem) (s.sp.toNat - 16) s.x19) (s.sp.toNat - 16 + 8) s.x20) (s.sp.toNat - 16 - 16) s.x21) (s.sp.toNat - 16 - 16 + 8) s.x22) (s.sp.toNat - 16 - 16 - 16) s.x23) (s.sp.toNat - 16 - 16 - 16 + 8) s.x24) (s.sp.toNat - 16 - 16 - 16 - 16) s.x25) (s.sp.toNat - 16 - 16 - 16 - 16 + 8) s.x26) (s.sp.toNat - 16 - 16 - 16 - 16 - 16) s.x27) (s.sp.toNat - 16 - 16 - 16 - 16 - 16 + 8) s.x28) (s.sp.toNat - 16 - 16 - 16 - 16 - 16 - 16) pp) (s.sp.toNat - 16 - 16 - 16 - 16 - 16 - 16 + 8) inv, readable := s.readable, writable := s.writable, pc := 343, status := .running } : State) 32
-      = ({ x0 := pr, x1 := t342.val, x2 := l343, x3 := inv, x4 := t365.val, x5 := l367, x6 := a4, x7 := a5, x8 := s.x8, x9 := p0, x10 := p1, x11 := p2, x12 := p3, x13 := p4, x14 := p5, x15 := t240.val, x16 := s.x16, x17 := s.x17, x18 := s.x18, x19 := t273.val, x20 := t306.val, x21 := t339.val, x22 := t372.val, x23 := t351.val, x24 := t356.val, x25 := t361.val, x26 := t366.val, x27 := t371.val, x28 := t374.val, x29 := s.x29, x30 := s.x30, sp := s.sp - 16#64 - 16#64 - 16#64 - 16#64 - 16#64, nf := some t374.n, zf := some t374.z, cf := some t374.c, vf := some t374.v, mem := setMem (setMem (setMem (setMem (setMem (setMem (setMem (setMem (setMem (setMem (setMem (setMem (s.mem) (s.sp.toNat - 16) s.x19) (s.sp.toNat - 16 + 8) s.x20) (s.sp.toNat - 16 - 16) s.x21) (s.sp.toNat - 16 - 16 + 8) s.x22) (s.sp.toNat - 16 - 16 - 16) s.x23) (s.sp.toNat - 16 - 16 - 16 + 8) s.x24) (s.sp.toNat - 16 - 16 - 16 - 16) s.x25) (s.sp.toNat - 16 - 16 - 16 - 16 + 8) s.x26) (s.sp.toNat - 16 - 16 - 16 - 16 - 16) s.x27) (s.sp.toNat - 16 - 16 - 16 - 16 - 16 + 8) s.x28) (s.sp.toNat - 16 - 16 - 16 - 16 - 16 - 16) pp) (s.sp.toNat - 16 - 16 - 16 - 16 - 16 - 16 + 8) inv, readable := s.readable, writable := s.writable, pc := 375, status := .running } : State) := by
-  obtain ⟨ra0, ra1, ra2, ra3, ra4, ra5⟩ := ha.r6
-  obtain ⟨⟨alra0, alra1, alra2, alra3, alra4, alra5⟩, fra1, fra2, fra3, fra4, fra5⟩ := ha.addr6
-  obtain ⟨rb0, rb1, rb2, rb3, rb4, rb5⟩ := hb.r6
-  obtain ⟨⟨alrb0, alrb1, alrb2, alrb3, alrb4, alrb5⟩, frb1, frb2, frb3, frb4, frb5⟩ := hb.addr6
-  obtain ⟨rp0, rp1, rp2, rp3, rp4, rp5⟩ := hp.r6
-  obtain ⟨⟨alrp0, alrp1, alrp2, alrp3, alrp4, alrp5⟩, frp1, frp2, frp3, frp4, frp5⟩ := hp.addr6
-  obtain ⟨rr0, rr1, rr2, rr3, rr4, rr5⟩ := hr.r6
-  obtain ⟨wr0, wr1, wr2, wr3, wr4, wr5⟩ := hr.w6
-  obtain ⟨⟨alrr0, alrr1, alrr2, alrr3, alrr4, alrr5⟩, frr1, frr2, frr3, frr4, frr5⟩ := hr.addr6
-  have als0 := hstk.aligned
-  obtain ⟨room1, als1, alq1a, alq1b, sr1a, sr1b, sw1a, sw1b⟩ := hstk.f1 (by omega)
-  obtain ⟨room2, als2, alq2a, alq2b, sr2a, sr2b, sw2a, sw2b⟩ := hstk.f2 (by omega)
-  obtain ⟨room3, als3, alq3a, alq3b, sr3a, sr3b, sw3a, sw3b⟩ := hstk.f3 (by omega)
-  obtain ⟨room4, als4, alq4a, alq4b, sr4a, sr4b, sw4a, sw4b⟩ := hstk.f4 (by omega)
-  obtain ⟨room5, als5, alq5a, alq5b, sr5a, sr5b, sw5a, sw5b⟩ := hstk.f5 (by omega)
-  obtain ⟨room6, als6, alq6a, alq6b, sr6a, sr6b, sw6a, sw6b⟩ := hstk.f6 (by omega)
-  replace hrs := Hide.mk (And.intro room6 hrs); replace has := Hide.mk (And.intro room6 has)
-  replace hbs := Hide.mk (And.intro room6 hbs); replace hps := Hide.mk (And.intro room6 hps)
-  simp only [OffStack] at hrs has hbs hps
-  clear ha hb hp hr hstk
-  a64_sym [← hl343, ← hl344, ← hh345, ← ht346, ← hl347, ← hh348, ← ht349, ← ht350, ← ht351, ← hl352, ← hh353, ← ht354, ← ht355, ← ht356, ← hl357, ← hh358, ← ht359, ← ht360, ← ht361, ← hl362, ← hh363, ← ht364, ← ht365, ← ht366, ← hl367, ← hh368, ← ht369, ← ht370, ← ht371, ← ht372, ← ht373, ← ht374]
-
-/-! ### the twelve endings -/
+/-! ## the twelve endings -/
 
 set_option maxHeartbeats 1600000 in
 theorem fpmul_tail_hi5 (s : State) (pr pa pb pp inv : Word)
@@ -1484,273 +979,6 @@ theorem fpmul_end_hs0 (s : State) (pr pa pb pp inv : Word) {a4 a5 p0 p1 p2 p3 p4
   · simp only; a64_mem; exact hres.2
   · intro k hk1 hk2
     simp (disch := (clear * - hk1 hk2 room6; omega)) only [setMem_ne]
-
-/-! ### the arithmetic on the named intermediates -/
-
-set_option maxHeartbeats 1600000 in
-set_option exponentiation.threshold 800 in
-theorem fpmul_prod {a0 a1 a2 a3 a4 a5 b0 b1 b2 b3 b4 b5 h13 h16 h19 h22 h25 h28 h32 h35 h40 h45 h50 h55 h61 h64 h69 h74 h79 h84 h90 h93 h98 l14 l15 l18 l21 l24 l27 l31 l34 l39 l44 l49 l54 l60 l63 l68 l73 l78 l83 l89 l92 l97 h103 h108 h113 h119 h122 h127 h132 h137 h142 h148 h151 h156 h161 h166 h171 l102 l107 l112 l118 l121 l126 l131 l136 l141 l147 l150 l155 l160 l165 l170 : Word} {t12 t17 t20 t23 t26 t29 t30 t33 t36 t37 t38 t41 t42 t43 t46 t47 t48 t51 t52 t53 t56 t57 t58 t59 t62 t65 t66 t67 t70 t71 t72 t75 t76 t77 t80 t81 t82 t85 t86 t87 t88 t91 t94 t95 t96 t99 t100 t101 t104 t105 t106 t109 t110 t111 t114 t115 t116 t117 t120 t123 t124 t125 t128 t129 t130 t133 t134 t135 t138 t139 t140 t143 t144 t145 t146 t149 t152 t153 t154 t157 t158 t159 t162 t163 t164 t167 t168 t169 t172 t173 t174 t175 : ArithRes}
-    (ht12 : t12 = addWithCarry (0 : Word) (0 : Word) false) (hh13 : h13 = mulHi a0 b0) (hl14 : l14 = mulLo a0 b0)
-    (hl15 : l15 = mulLo a0 b1) (hh16 : h16 = mulHi a0 b1) (ht17 : t17 = addWithCarry l15 h13 t12.c)
-    (hl18 : l18 = mulLo a0 b2) (hh19 : h19 = mulHi a0 b2) (ht20 : t20 = addWithCarry l18 h16 t17.c)
-    (hl21 : l21 = mulLo a0 b3) (hh22 : h22 = mulHi a0 b3) (ht23 : t23 = addWithCarry l21 h19 t20.c)
-    (hl24 : l24 = mulLo a0 b4) (hh25 : h25 = mulHi a0 b4) (ht26 : t26 = addWithCarry l24 h22 t23.c)
-    (hl27 : l27 = mulLo a0 b5) (hh28 : h28 = mulHi a0 b5) (ht29 : t29 = addWithCarry l27 h25 t26.c)
-    (ht30 : t30 = addWithCarry h28 (0 : Word) t29.c) (hl31 : l31 = mulLo a1 b0) (hh32 : h32 = mulHi a1 b0)
-    (ht33 : t33 = addWithCarry t17.val l31 false) (hl34 : l34 = mulLo a1 b1) (hh35 : h35 = mulHi a1 b1)
-    (ht36 : t36 = addWithCarry t20.val l34 t33.c) (ht37 : t37 = addWithCarry h35 (0 : Word) t36.c)
-    (ht38 : t38 = addWithCarry t36.val h32 false) (hl39 : l39 = mulLo a1 b2) (hh40 : h40 = mulHi a1 b2)
-    (ht41 : t41 = addWithCarry t23.val l39 t38.c) (ht42 : t42 = addWithCarry h40 (0 : Word) t41.c)
-    (ht43 : t43 = addWithCarry t41.val t37.val false) (hl44 : l44 = mulLo a1 b3) (hh45 : h45 = mulHi a1 b3)
-    (ht46 : t46 = addWithCarry t26.val l44 t43.c) (ht47 : t47 = addWithCarry h45 (0 : Word) t46.c)
-    (ht48 : t48 = addWithCarry t46.val t42.val false) (hl49 : l49 = mulLo a1 b4) (hh50 : h50 = mulHi a1 b4)
-    (ht51 : t51 = addWithCarry t29.val l49 t48.c) (ht52 : t52 = addWithCarry h50 (0 : Word) t51.c)
-    (ht53 : t53 = addWithCarry t51.val t47.val false) (hl54 : l54 = mulLo a1 b5) (hh55 : h55 = mulHi a1 b5)
-    (ht56 : t56 = addWithCarry t30.val l54 t53.c) (ht57 : t57 = addWithCarry h55 (0 : Word) t56.c)
-    (ht58 : t58 = addWithCarry t56.val t52.val false) (ht59 : t59 = addWithCarry t57.val (0 : Word) t58.c)
-    (hl60 : l60 = mulLo a2 b0) (hh61 : h61 = mulHi a2 b0) (ht62 : t62 = addWithCarry t38.val l60 false)
-    (hl63 : l63 = mulLo a2 b1) (hh64 : h64 = mulHi a2 b1) (ht65 : t65 = addWithCarry t43.val l63 t62.c)
-    (ht66 : t66 = addWithCarry h64 (0 : Word) t65.c) (ht67 : t67 = addWithCarry t65.val h61 false)
-    (hl68 : l68 = mulLo a2 b2) (hh69 : h69 = mulHi a2 b2) (ht70 : t70 = addWithCarry t48.val l68 t67.c)
-    (ht71 : t71 = addWithCarry h69 (0 : Word) t70.c) (ht72 : t72 = addWithCarry t70.val t66.val false)
-    (hl73 : l73 = mulLo a2 b3) (hh74 : h74 = mulHi a2 b3) (ht75 : t75 = addWithCarry t53.val l73 t72.c)
-    (ht76 : t76 = addWithCarry h74 (0 : Word) t75.c) (ht77 : t77 = addWithCarry t75.val t71.val false)
-    (hl78 : l78 = mulLo a2 b4) (hh79 : h79 = mulHi a2 b4) (ht80 : t80 = addWithCarry t58.val l78 t77.c)
-    (ht81 : t81 = addWithCarry h79 (0 : Word) t80.c) (ht82 : t82 = addWithCarry t80.val t76.val false)
-    (hl83 : l83 = mulLo a2 b5) (hh84 : h84 = mulHi a2 b5) (ht85 : t85 = addWithCarry t59.val l83 t82.c)
-    (ht86 : t86 = addWithCarry h84 (0 : Word) t85.c) (ht87 : t87 = addWithCarry t85.val t81.val false)
-    (ht88 : t88 = addWithCarry t86.val (0 : Word) t87.c) (hl89 : l89 = mulLo a3 b0) (hh90 : h90 = mulHi a3 b0)
-    (ht91 : t91 = addWithCarry t67.val l89 false) (hl92 : l92 = mulLo a3 b1) (hh93 : h93 = mulHi a3 b1)
-    (ht94 : t94 = addWithCarry t72.val l92 t91.c) (ht95 : t95 = addWithCarry h93 (0 : Word) t94.c)
-    (ht96 : t96 = addWithCarry t94.val h90 false) (hl97 : l97 = mulLo a3 b2) (hh98 : h98 = mulHi a3 b2)
-    (ht99 : t99 = addWithCarry t77.val l97 t96.c) (ht100 : t100 = addWithCarry h98 (0 : Word) t99.c)
-    (ht101 : t101 = addWithCarry t99.val t95.val false) (hl102 : l102 = mulLo a3 b3) (hh103 : h103 = mulHi a3 b3)
-    (ht104 : t104 = addWithCarry t82.val l102 t101.c) (ht105 : t105 = addWithCarry h103 (0 : Word) t104.c)
-    (ht106 : t106 = addWithCarry t104.val t100.val false) (hl107 : l107 = mulLo a3 b4) (hh108 : h108 = mulHi a3 b4)
-    (ht109 : t109 = addWithCarry t87.val l107 t106.c) (ht110 : t110 = addWithCarry h108 (0 : Word) t109.c)
-    (ht111 : t111 = addWithCarry t109.val t105.val false) (hl112 : l112 = mulLo a3 b5) (hh113 : h113 = mulHi a3 b5)
-    (ht114 : t114 = addWithCarry t88.val l112 t111.c) (ht115 : t115 = addWithCarry h113 (0 : Word) t114.c)
-    (ht116 : t116 = addWithCarry t114.val t110.val false) (ht117 : t117 = addWithCarry t115.val (0 : Word) t116.c)
-    (hl118 : l118 = mulLo a4 b0) (hh119 : h119 = mulHi a4 b0) (ht120 : t120 = addWithCarry t96.val l118 false)
-    (hl121 : l121 = mulLo a4 b1) (hh122 : h122 = mulHi a4 b1) (ht123 : t123 = addWithCarry t101.val l121 t120.c)
-    (ht124 : t124 = addWithCarry h122 (0 : Word) t123.c) (ht125 : t125 = addWithCarry t123.val h119 false)
-    (hl126 : l126 = mulLo a4 b2) (hh127 : h127 = mulHi a4 b2) (ht128 : t128 = addWithCarry t106.val l126 t125.c)
-    (ht129 : t129 = addWithCarry h127 (0 : Word) t128.c) (ht130 : t130 = addWithCarry t128.val t124.val false)
-    (hl131 : l131 = mulLo a4 b3) (hh132 : h132 = mulHi a4 b3) (ht133 : t133 = addWithCarry t111.val l131 t130.c)
-    (ht134 : t134 = addWithCarry h132 (0 : Word) t133.c) (ht135 : t135 = addWithCarry t133.val t129.val false)
-    (hl136 : l136 = mulLo a4 b4) (hh137 : h137 = mulHi a4 b4) (ht138 : t138 = addWithCarry t116.val l136 t135.c)
-    (ht139 : t139 = addWithCarry h137 (0 : Word) t138.c) (ht140 : t140 = addWithCarry t138.val t134.val false)
-    (hl141 : l141 = mulLo a4 b5) (hh142 : h142 = mulHi a4 b5) (ht143 : t143 = addWithCarry t117.val l141 t140.c)
-    (ht144 : t144 = addWithCarry h142 (0 : Word) t143.c) (ht145 : t145 = addWithCarry t143.val t139.val false)
-    (ht146 : t146 = addWithCarry t144.val (0 : Word) t145.c) (hl147 : l147 = mulLo a5 b0) (hh148 : h148 = mulHi a5 b0)
-    (ht149 : t149 = addWithCarry t125.val l147 false) (hl150 : l150 = mulLo a5 b1) (hh151 : h151 = mulHi a5 b1)
-    (ht152 : t152 = addWithCarry t130.val l150 t149.c) (ht153 : t153 = addWithCarry h151 (0 : Word) t152.c)
-    (ht154 : t154 = addWithCarry t152.val h148 false) (hl155 : l155 = mulLo a5 b2) (hh156 : h156 = mulHi a5 b2)
-    (ht157 : t157 = addWithCarry t135.val l155 t154.c) (ht158 : t158 = addWithCarry h156 (0 : Word) t157.c)
-    (ht159 : t159 = addWithCarry t157.val t153.val false) (hl160 : l160 = mulLo a5 b3) (hh161 : h161 = mulHi a5 b3)
-    (ht162 : t162 = addWithCarry t140.val l160 t159.c) (ht163 : t163 = addWithCarry h161 (0 : Word) t162.c)
-    (ht164 : t164 = addWithCarry t162.val t158.val false) (hl165 : l165 = mulLo a5 b4) (hh166 : h166 = mulHi a5 b4)
-    (ht167 : t167 = addWithCarry t145.val l165 t164.c) (ht168 : t168 = addWithCarry h166 (0 : Word) t167.c)
-    (ht169 : t169 = addWithCarry t167.val t163.val false) (hl170 : l170 = mulLo a5 b5) (hh171 : h171 = mulHi a5 b5)
-    (ht172 : t172 = addWithCarry t146.val l170 t169.c) (ht173 : t173 = addWithCarry h171 (0 : Word) t172.c)
-    (ht174 : t174 = addWithCarry t172.val t168.val false) (ht175 : t175 = addWithCarry t173.val (0 : Word) t174.c)
-     :
-    val (2 ^ 64) [l14.toNat, t33.val.toNat, t62.val.toNat, t91.val.toNat, t120.val.toNat, t149.val.toNat, t154.val.toNat, t159.val.toNat, t164.val.toNat, t169.val.toNat, t174.val.toNat, t175.val.toNat] = val (2 ^ 64) [a0.toNat, a1.toNat, a2.toNat, a3.toNat, a4.toNat, a5.toNat] * val (2 ^ 64) [b0.toNat, b1.toNat, b2.toNat, b3.toNat, b4.toNat, b5.toNat] := by
-  have c12 : t12.c = false := by rw [ht12]; exact awc_zero_c
-  have e13 := multiply64_spec hl14 hh13
-  have i13 : h13.toNat + t12.c.toNat ≤ 2 ^ 64 - 1 := by rw [c12]; have := e13.2; simp only [Bool.toNat_false]; clear * - this; omega
-  have e15 := mulcarry64_spec hl15 hh16 ht17 i13
-  simp only [c12, Bool.toNat_false, Nat.add_zero] at e15
-  have e18 := mulcarry64_spec hl18 hh19 ht20 e15.2
-  have e21 := mulcarry64_spec hl21 hh22 ht23 e18.2
-  have e24 := mulcarry64_spec hl24 hh25 ht26 e21.2
-  have e27 := mulcarry64_spec hl27 hh28 ht29 e24.2
-  have e30 := rowend_spec ht30 e27.2
-  have e31 := muladd64_spec hl31 hh32 ht33
-  have e34 := muladdcarry64_spec hl34 hh35 ht36 ht37 ht38 e31.2
-  have e39 := muladdcarry64_spec hl39 hh40 ht41 ht42 ht43 e34.2
-  have e44 := muladdcarry64_spec hl44 hh45 ht46 ht47 ht48 e39.2
-  have e49 := muladdcarry64_spec hl49 hh50 ht51 ht52 ht53 e44.2
-  have e54 := muladdcarry64_spec hl54 hh55 ht56 ht57 ht58 e49.2
-  have e59 := rowend_spec ht59 e54.2
-  have e60 := muladd64_spec hl60 hh61 ht62
-  have e63 := muladdcarry64_spec hl63 hh64 ht65 ht66 ht67 e60.2
-  have e68 := muladdcarry64_spec hl68 hh69 ht70 ht71 ht72 e63.2
-  have e73 := muladdcarry64_spec hl73 hh74 ht75 ht76 ht77 e68.2
-  have e78 := muladdcarry64_spec hl78 hh79 ht80 ht81 ht82 e73.2
-  have e83 := muladdcarry64_spec hl83 hh84 ht85 ht86 ht87 e78.2
-  have e88 := rowend_spec ht88 e83.2
-  have e89 := muladd64_spec hl89 hh90 ht91
-  have e92 := muladdcarry64_spec hl92 hh93 ht94 ht95 ht96 e89.2
-  have e97 := muladdcarry64_spec hl97 hh98 ht99 ht100 ht101 e92.2
-  have e102 := muladdcarry64_spec hl102 hh103 ht104 ht105 ht106 e97.2
-  have e107 := muladdcarry64_spec hl107 hh108 ht109 ht110 ht111 e102.2
-  have e112 := muladdcarry64_spec hl112 hh113 ht114 ht115 ht116 e107.2
-  have e117 := rowend_spec ht117 e112.2
-  have e118 := muladd64_spec hl118 hh119 ht120
-  have e121 := muladdcarry64_spec hl121 hh122 ht123 ht124 ht125 e118.2
-  have e126 := muladdcarry64_spec hl126 hh127 ht128 ht129 ht130 e121.2
-  have e131 := muladdcarry64_spec hl131 hh132 ht133 ht134 ht135 e126.2
-  have e136 := muladdcarry64_spec hl136 hh137 ht138 ht139 ht140 e131.2
-  have e141 := muladdcarry64_spec hl141 hh142 ht143 ht144 ht145 e136.2
-  have e146 := rowend_spec ht146 e141.2
-  have e147 := muladd64_spec hl147 hh148 ht149
-  have e150 := muladdcarry64_spec hl150 hh151 ht152 ht153 ht154 e147.2
-  have e155 := muladdcarry64_spec hl155 hh156 ht157 ht158 ht159 e150.2
-  have e160 := muladdcarry64_spec hl160 hh161 ht162 ht163 ht164 e155.2
-  have e165 := muladdcarry64_spec hl165 hh166 ht167 ht168 ht169 e160.2
-  have e170 := muladdcarry64_spec hl170 hh171 ht172 ht173 ht174 e165.2
-  have e175 := rowend_spec ht175 e170.2
-  simp only [val_cons, val_nil]
-  linear_combination e13.1 + 2 ^ 64 * e15.1 + 2 ^ 128 * e18.1 + 2 ^ 192 * e21.1 + 2 ^ 256 * e24.1 + 2 ^ 320 * e27.1 + 2 ^ 384 * e30 + 2 ^ 64 * e31.1 + 2 ^ 128 * e34.1 + 2 ^ 192 * e39.1 + 2 ^ 256 * e44.1 + 2 ^ 320 * e49.1 + 2 ^ 384 * e54.1 + 2 ^ 448 * e59 + 2 ^ 128 * e60.1 + 2 ^ 192 * e63.1 + 2 ^ 256 * e68.1 + 2 ^ 320 * e73.1 + 2 ^ 384 * e78.1 + 2 ^ 448 * e83.1 + 2 ^ 512 * e88 + 2 ^ 192 * e89.1 + 2 ^ 256 * e92.1 + 2 ^ 320 * e97.1 + 2 ^ 384 * e102.1 + 2 ^ 448 * e107.1 + 2 ^ 512 * e112.1 + 2 ^ 576 * e117 + 2 ^ 256 * e118.1 + 2 ^ 320 * e121.1 + 2 ^ 384 * e126.1 + 2 ^ 448 * e131.1 + 2 ^ 512 * e136.1 + 2 ^ 576 * e141.1 + 2 ^ 640 * e146 + 2 ^ 320 * e147.1 + 2 ^ 384 * e150.1 + 2 ^ 448 * e155.1 + 2 ^ 512 * e160.1 + 2 ^ 576 * e165.1 + 2 ^ 640 * e170.1 + 2 ^ 704 * e175
-
-set_option maxHeartbeats 1600000 in
-set_option exponentiation.threshold 800 in
-theorem fpmul_mont {p0 p1 p2 p3 p4 p5 inv l14 h182 h185 h190 h195 h200 h205 h213 h216 h221 h226 h231 h236 h246 h249 h254 h259 h264 h269 h279 h282 h287 h292 h297 h302 h312 h315 h320 h325 h330 h335 h345 h348 h353 h358 h363 h368 l180 l181 l184 l189 l194 l199 l204 l211 l212 l215 l220 l225 l230 l235 l244 l245 l248 l253 l258 l263 l268 l277 l278 l281 l286 l291 l296 l301 l310 l311 l314 l319 l324 l329 l334 l343 l344 l347 l352 l357 l362 l367 : Word} {t33 t62 t91 t120 t149 t154 t159 t164 t169 t174 t175 t183 t186 t187 t188 t191 t192 t193 t196 t197 t198 t201 t202 t203 t206 t207 t208 t209 t210 t214 t217 t218 t219 t222 t223 t224 t227 t228 t229 t232 t233 t234 t237 t238 t239 t240 t241 t242 t243 t247 t250 t251 t252 t255 t256 t257 t260 t261 t262 t265 t266 t267 t270 t271 t272 t273 t274 t275 t276 t280 t283 t284 t285 t288 t289 t290 t293 t294 t295 t298 t299 t300 t303 t304 t305 t306 t307 t308 t309 t313 t316 t317 t318 t321 t322 t323 t326 t327 t328 t331 t332 t333 t336 t337 t338 t339 t340 t341 t342 t346 t349 t350 t351 t354 t355 t356 t359 t360 t361 t364 t365 t366 t369 t370 t371 t372 t373 t374 : ArithRes}
-    (hl180 : l180 = mulLo l14 inv) (hl181 : l181 = mulLo l180 p0) (hh182 : h182 = mulHi l180 p0)
-    (ht183 : t183 = addWithCarry l14 l181 false) (hl184 : l184 = mulLo l180 p1) (hh185 : h185 = mulHi l180 p1)
-    (ht186 : t186 = addWithCarry t33.val l184 t183.c) (ht187 : t187 = addWithCarry h185 (0 : Word) t186.c)
-    (ht188 : t188 = addWithCarry t186.val h182 false) (hl189 : l189 = mulLo l180 p2) (hh190 : h190 = mulHi l180 p2)
-    (ht191 : t191 = addWithCarry t62.val l189 t188.c) (ht192 : t192 = addWithCarry h190 (0 : Word) t191.c)
-    (ht193 : t193 = addWithCarry t191.val t187.val false) (hl194 : l194 = mulLo l180 p3) (hh195 : h195 = mulHi l180 p3)
-    (ht196 : t196 = addWithCarry t91.val l194 t193.c) (ht197 : t197 = addWithCarry h195 (0 : Word) t196.c)
-    (ht198 : t198 = addWithCarry t196.val t192.val false) (hl199 : l199 = mulLo l180 p4) (hh200 : h200 = mulHi l180 p4)
-    (ht201 : t201 = addWithCarry t120.val l199 t198.c) (ht202 : t202 = addWithCarry h200 (0 : Word) t201.c)
-    (ht203 : t203 = addWithCarry t201.val t197.val false) (hl204 : l204 = mulLo l180 p5) (hh205 : h205 = mulHi l180 p5)
-    (ht206 : t206 = addWithCarry t149.val l204 t203.c) (ht207 : t207 = addWithCarry h205 (0 : Word) t206.c)
-    (ht208 : t208 = addWithCarry t206.val t202.val false) (ht209 : t209 = addWithCarry t154.val t207.val t208.c)
-    (ht210 : t210 = addWithCarry (0 : Word) (0 : Word) t209.c) (hl211 : l211 = mulLo t188.val inv)
-    (hl212 : l212 = mulLo l211 p0) (hh213 : h213 = mulHi l211 p0) (ht214 : t214 = addWithCarry t188.val l212 false)
-    (hl215 : l215 = mulLo l211 p1) (hh216 : h216 = mulHi l211 p1) (ht217 : t217 = addWithCarry t193.val l215 t214.c)
-    (ht218 : t218 = addWithCarry h216 (0 : Word) t217.c) (ht219 : t219 = addWithCarry t217.val h213 false)
-    (hl220 : l220 = mulLo l211 p2) (hh221 : h221 = mulHi l211 p2) (ht222 : t222 = addWithCarry t198.val l220 t219.c)
-    (ht223 : t223 = addWithCarry h221 (0 : Word) t222.c) (ht224 : t224 = addWithCarry t222.val t218.val false)
-    (hl225 : l225 = mulLo l211 p3) (hh226 : h226 = mulHi l211 p3) (ht227 : t227 = addWithCarry t203.val l225 t224.c)
-    (ht228 : t228 = addWithCarry h226 (0 : Word) t227.c) (ht229 : t229 = addWithCarry t227.val t223.val false)
-    (hl230 : l230 = mulLo l211 p4) (hh231 : h231 = mulHi l211 p4) (ht232 : t232 = addWithCarry t208.val l230 t229.c)
-    (ht233 : t233 = addWithCarry h231 (0 : Word) t232.c) (ht234 : t234 = addWithCarry t232.val t228.val false)
-    (hl235 : l235 = mulLo l211 p5) (hh236 : h236 = mulHi l211 p5) (ht237 : t237 = addWithCarry t209.val l235 t234.c)
-    (ht238 : t238 = addWithCarry h236 (0 : Word) t237.c) (ht239 : t239 = addWithCarry t237.val t233.val false)
-    (ht240 : t240 = addWithCarry t238.val (0 : Word) t239.c) (ht241 : t241 = addWithCarry t210.val (~~~1#64) true)
-    (ht242 : t242 = addWithCarry t159.val t240.val t241.c) (ht243 : t243 = addWithCarry (0 : Word) (0 : Word) t242.c)
-    (hl244 : l244 = mulLo t219.val inv) (hl245 : l245 = mulLo l244 p0) (hh246 : h246 = mulHi l244 p0)
-    (ht247 : t247 = addWithCarry t219.val l245 false) (hl248 : l248 = mulLo l244 p1) (hh249 : h249 = mulHi l244 p1)
-    (ht250 : t250 = addWithCarry t224.val l248 t247.c) (ht251 : t251 = addWithCarry h249 (0 : Word) t250.c)
-    (ht252 : t252 = addWithCarry t250.val h246 false) (hl253 : l253 = mulLo l244 p2) (hh254 : h254 = mulHi l244 p2)
-    (ht255 : t255 = addWithCarry t229.val l253 t252.c) (ht256 : t256 = addWithCarry h254 (0 : Word) t255.c)
-    (ht257 : t257 = addWithCarry t255.val t251.val false) (hl258 : l258 = mulLo l244 p3) (hh259 : h259 = mulHi l244 p3)
-    (ht260 : t260 = addWithCarry t234.val l258 t257.c) (ht261 : t261 = addWithCarry h259 (0 : Word) t260.c)
-    (ht262 : t262 = addWithCarry t260.val t256.val false) (hl263 : l263 = mulLo l244 p4) (hh264 : h264 = mulHi l244 p4)
-    (ht265 : t265 = addWithCarry t239.val l263 t262.c) (ht266 : t266 = addWithCarry h264 (0 : Word) t265.c)
-    (ht267 : t267 = addWithCarry t265.val t261.val false) (hl268 : l268 = mulLo l244 p5) (hh269 : h269 = mulHi l244 p5)
-    (ht270 : t270 = addWithCarry t242.val l268 t267.c) (ht271 : t271 = addWithCarry h269 (0 : Word) t270.c)
-    (ht272 : t272 = addWithCarry t270.val t266.val false) (ht273 : t273 = addWithCarry t271.val (0 : Word) t272.c)
-    (ht274 : t274 = addWithCarry t243.val (~~~1#64) true) (ht275 : t275 = addWithCarry t164.val t273.val t274.c)
-    (ht276 : t276 = addWithCarry (0 : Word) (0 : Word) t275.c) (hl277 : l277 = mulLo t252.val inv)
-    (hl278 : l278 = mulLo l277 p0) (hh279 : h279 = mulHi l277 p0) (ht280 : t280 = addWithCarry t252.val l278 false)
-    (hl281 : l281 = mulLo l277 p1) (hh282 : h282 = mulHi l277 p1) (ht283 : t283 = addWithCarry t257.val l281 t280.c)
-    (ht284 : t284 = addWithCarry h282 (0 : Word) t283.c) (ht285 : t285 = addWithCarry t283.val h279 false)
-    (hl286 : l286 = mulLo l277 p2) (hh287 : h287 = mulHi l277 p2) (ht288 : t288 = addWithCarry t262.val l286 t285.c)
-    (ht289 : t289 = addWithCarry h287 (0 : Word) t288.c) (ht290 : t290 = addWithCarry t288.val t284.val false)
-    (hl291 : l291 = mulLo l277 p3) (hh292 : h292 = mulHi l277 p3) (ht293 : t293 = addWithCarry t267.val l291 t290.c)
-    (ht294 : t294 = addWithCarry h292 (0 : Word) t293.c) (ht295 : t295 = addWithCarry t293.val t289.val false)
-    (hl296 : l296 = mulLo l277 p4) (hh297 : h297 = mulHi l277 p4) (ht298 : t298 = addWithCarry t272.val l296 t295.c)
-    (ht299 : t299 = addWithCarry h297 (0 : Word) t298.c) (ht300 : t300 = addWithCarry t298.val t294.val false)
-    (hl301 : l301 = mulLo l277 p5) (hh302 : h302 = mulHi l277 p5) (ht303 : t303 = addWithCarry t275.val l301 t300.c)
-    (ht304 : t304 = addWithCarry h302 (0 : Word) t303.c) (ht305 : t305 = addWithCarry t303.val t299.val false)
-    (ht306 : t306 = addWithCarry t304.val (0 : Word) t305.c) (ht307 : t307 = addWithCarry t276.val (~~~1#64) true)
-    (ht308 : t308 = addWithCarry t169.val t306.val t307.c) (ht309 : t309 = addWithCarry (0 : Word) (0 : Word) t308.c)
-    (hl310 : l310 = mulLo t285.val inv) (hl311 : l311 = mulLo l310 p0) (hh312 : h312 = mulHi l310 p0)
-    (ht313 : t313 = addWithCarry t285.val l311 false) (hl314 : l314 = mulLo l310 p1) (hh315 : h315 = mulHi l310 p1)
-    (ht316 : t316 = addWithCarry t290.val l314 t313.c) (ht317 : t317 = addWithCarry h315 (0 : Word) t316.c)
-    (ht318 : t318 = addWithCarry t316.val h312 false) (hl319 : l319 = mulLo l310 p2) (hh320 : h320 = mulHi l310 p2)
-    (ht321 : t321 = addWithCarry t295.val l319 t318.c) (ht322 : t322 = addWithCarry h320 (0 : Word) t321.c)
-    (ht323 : t323 = addWithCarry t321.val t317.val false) (hl324 : l324 = mulLo l310 p3) (hh325 : h325 = mulHi l310 p3)
-    (ht326 : t326 = addWithCarry t300.val l324 t323.c) (ht327 : t327 = addWithCarry h325 (0 : Word) t326.c)
-    (ht328 : t328 = addWithCarry t326.val t322.val false) (hl329 : l329 = mulLo l310 p4) (hh330 : h330 = mulHi l310 p4)
-    (ht331 : t331 = addWithCarry t305.val l329 t328.c) (ht332 : t332 = addWithCarry h330 (0 : Word) t331.c)
-    (ht333 : t333 = addWithCarry t331.val t327.val false) (hl334 : l334 = mulLo l310 p5) (hh335 : h335 = mulHi l310 p5)
-    (ht336 : t336 = addWithCarry t308.val l334 t333.c) (ht337 : t337 = addWithCarry h335 (0 : Word) t336.c)
-    (ht338 : t338 = addWithCarry t336.val t332.val false) (ht339 : t339 = addWithCarry t337.val (0 : Word) t338.c)
-    (ht340 : t340 = addWithCarry t309.val (~~~1#64) true) (ht341 : t341 = addWithCarry t174.val t339.val t340.c)
-    (ht342 : t342 = addWithCarry (0 : Word) (0 : Word) t341.c) (hl343 : l343 = mulLo t318.val inv)
-    (hl344 : l344 = mulLo l343 p0) (hh345 : h345 = mulHi l343 p0) (ht346 : t346 = addWithCarry t318.val l344 false)
-    (hl347 : l347 = mulLo l343 p1) (hh348 : h348 = mulHi l343 p1) (ht349 : t349 = addWithCarry t323.val l347 t346.c)
-    (ht350 : t350 = addWithCarry h348 (0 : Word) t349.c) (ht351 : t351 = addWithCarry t349.val h345 false)
-    (hl352 : l352 = mulLo l343 p2) (hh353 : h353 = mulHi l343 p2) (ht354 : t354 = addWithCarry t328.val l352 t351.c)
-    (ht355 : t355 = addWithCarry h353 (0 : Word) t354.c) (ht356 : t356 = addWithCarry t354.val t350.val false)
-    (hl357 : l357 = mulLo l343 p3) (hh358 : h358 = mulHi l343 p3) (ht359 : t359 = addWithCarry t333.val l357 t356.c)
-    (ht360 : t360 = addWithCarry h358 (0 : Word) t359.c) (ht361 : t361 = addWithCarry t359.val t355.val false)
-    (hl362 : l362 = mulLo l343 p4) (hh363 : h363 = mulHi l343 p4) (ht364 : t364 = addWithCarry t338.val l362 t361.c)
-    (ht365 : t365 = addWithCarry h363 (0 : Word) t364.c) (ht366 : t366 = addWithCarry t364.val t360.val false)
-    (hl367 : l367 = mulLo l343 p5) (hh368 : h368 = mulHi l343 p5) (ht369 : t369 = addWithCarry t341.val l367 t366.c)
-    (ht370 : t370 = addWithCarry h368 (0 : Word) t369.c) (ht371 : t371 = addWithCarry t369.val t365.val false)
-    (ht372 : t372 = addWithCarry t370.val (0 : Word) t371.c) (ht373 : t373 = addWithCarry t342.val (~~~1#64) true)
-    (ht374 : t374 = addWithCarry t175.val t372.val t373.c)
-    (hinv : (inv.toNat * val (2 ^ 64) [p0.toNat, p1.toNat, p2.toNat, p3.toNat, p4.toNat, p5.toNat] + 1) % 2 ^ 64 = 0)
-    (hT : val (2 ^ 64) [l14.toNat, t33.val.toNat, t62.val.toNat, t91.val.toNat, t120.val.toNat, t149.val.toNat, t154.val.toNat, t159.val.toNat, t164.val.toNat, t169.val.toNat, t174.val.toNat, t175.val.toNat] < val (2 ^ 64) [p0.toNat, p1.toNat, p2.toNat, p3.toNat, p4.toNat, p5.toNat] * 2 ^ 384) (h2P : 2 * val (2 ^ 64) [p0.toNat, p1.toNat, p2.toNat, p3.toNat, p4.toNat, p5.toNat] ≤ 2 ^ 384) :
-    val (2 ^ 64) [t351.val.toNat, t356.val.toNat, t361.val.toNat, t366.val.toNat, t371.val.toNat, t374.val.toNat] < 2 * val (2 ^ 64) [p0.toNat, p1.toNat, p2.toNat, p3.toNat, p4.toNat, p5.toNat] ∧ 2 ^ 384 * val (2 ^ 64) [t351.val.toNat, t356.val.toNat, t361.val.toNat, t366.val.toNat, t371.val.toNat, t374.val.toNat] = val (2 ^ 64) [l14.toNat, t33.val.toNat, t62.val.toNat, t91.val.toNat, t120.val.toNat, t149.val.toNat, t154.val.toNat, t159.val.toNat, t164.val.toNat, t169.val.toNat, t174.val.toNat, t175.val.toNat] + val (2 ^ 64) [l180.toNat, l211.toNat, l244.toNat, l277.toNat, l310.toNat, l343.toNat] * val (2 ^ 64) [p0.toNat, p1.toNat, p2.toNat, p3.toNat, p4.toNat, p5.toNat] := by
-  have hinv' := hinv
-  simp only [val_cons, val_nil] at hinv'
-  replace hinv := hinv'
-  have e181 := muladd64_spec hl181 hh182 ht183
-  have z181 := mont_low hinv hl180 hl181 ht183
-  have f181 := e181.1; rw [z181, Nat.zero_add] at f181
-  have e184 := muladdcarry64_spec hl184 hh185 ht186 ht187 ht188 e181.2
-  have e189 := muladdcarry64_spec hl189 hh190 ht191 ht192 ht193 e184.2
-  have e194 := muladdcarry64_spec hl194 hh195 ht196 ht197 ht198 e189.2
-  have e199 := muladdcarry64_spec hl199 hh200 ht201 ht202 ht203 e194.2
-  have e204 := muladdcarry64_spec hl204 hh205 ht206 ht207 ht208 e199.2
-  have e209 := mont_top_first ht209 ht210
-  have e212 := muladd64_spec hl212 hh213 ht214
-  have z212 := mont_low hinv hl211 hl212 ht214
-  have f212 := e212.1; rw [z212, Nat.zero_add] at f212
-  have e215 := muladdcarry64_spec hl215 hh216 ht217 ht218 ht219 e212.2
-  have e220 := muladdcarry64_spec hl220 hh221 ht222 ht223 ht224 e215.2
-  have e225 := muladdcarry64_spec hl225 hh226 ht227 ht228 ht229 e220.2
-  have e230 := muladdcarry64_spec hl230 hh231 ht232 ht233 ht234 e225.2
-  have e235 := muladdcarry64_spec hl235 hh236 ht237 ht238 ht239 e230.2
-  have e242 := mont_top_mid ht240 ht241 ht242 ht243 e235.2 e209.2
-  have e245 := muladd64_spec hl245 hh246 ht247
-  have z245 := mont_low hinv hl244 hl245 ht247
-  have f245 := e245.1; rw [z245, Nat.zero_add] at f245
-  have e248 := muladdcarry64_spec hl248 hh249 ht250 ht251 ht252 e245.2
-  have e253 := muladdcarry64_spec hl253 hh254 ht255 ht256 ht257 e248.2
-  have e258 := muladdcarry64_spec hl258 hh259 ht260 ht261 ht262 e253.2
-  have e263 := muladdcarry64_spec hl263 hh264 ht265 ht266 ht267 e258.2
-  have e268 := muladdcarry64_spec hl268 hh269 ht270 ht271 ht272 e263.2
-  have e275 := mont_top_mid ht273 ht274 ht275 ht276 e268.2 e242.2
-  have e278 := muladd64_spec hl278 hh279 ht280
-  have z278 := mont_low hinv hl277 hl278 ht280
-  have f278 := e278.1; rw [z278, Nat.zero_add] at f278
-  have e281 := muladdcarry64_spec hl281 hh282 ht283 ht284 ht285 e278.2
-  have e286 := muladdcarry64_spec hl286 hh287 ht288 ht289 ht290 e281.2
-  have e291 := muladdcarry64_spec hl291 hh292 ht293 ht294 ht295 e286.2
-  have e296 := muladdcarry64_spec hl296 hh297 ht298 ht299 ht300 e291.2
-  have e301 := muladdcarry64_spec hl301 hh302 ht303 ht304 ht305 e296.2
-  have e308 := mont_top_mid ht306 ht307 ht308 ht309 e301.2 e275.2
-  have e311 := muladd64_spec hl311 hh312 ht313
-  have z311 := mont_low hinv hl310 hl311 ht313
-  have f311 := e311.1; rw [z311, Nat.zero_add] at f311
-  have e314 := muladdcarry64_spec hl314 hh315 ht316 ht317 ht318 e311.2
-  have e319 := muladdcarry64_spec hl319 hh320 ht321 ht322 ht323 e314.2
-  have e324 := muladdcarry64_spec hl324 hh325 ht326 ht327 ht328 e319.2
-  have e329 := muladdcarry64_spec hl329 hh330 ht331 ht332 ht333 e324.2
-  have e334 := muladdcarry64_spec hl334 hh335 ht336 ht337 ht338 e329.2
-  have e341 := mont_top_mid ht339 ht340 ht341 ht342 e334.2 e308.2
-  have e344 := muladd64_spec hl344 hh345 ht346
-  have z344 := mont_low hinv hl343 hl344 ht346
-  have f344 := e344.1; rw [z344, Nat.zero_add] at f344
-  have e347 := muladdcarry64_spec hl347 hh348 ht349 ht350 ht351 e344.2
-  have e352 := muladdcarry64_spec hl352 hh353 ht354 ht355 ht356 e347.2
-  have e357 := muladdcarry64_spec hl357 hh358 ht359 ht360 ht361 e352.2
-  have e362 := muladdcarry64_spec hl362 hh363 ht364 ht365 ht366 e357.2
-  have e367 := muladdcarry64_spec hl367 hh368 ht369 ht370 ht371 e362.2
-  have e374 := mont_top_last ht372 ht373 ht374 e367.2 e341.2
-  have key : 2 ^ 384 * (val (2 ^ 64) [t351.val.toNat, t356.val.toNat, t361.val.toNat, t366.val.toNat, t371.val.toNat, t374.val.toNat] + 2 ^ 384 * t374.c.toNat) = val (2 ^ 64) [l14.toNat, t33.val.toNat, t62.val.toNat, t91.val.toNat, t120.val.toNat, t149.val.toNat, t154.val.toNat, t159.val.toNat, t164.val.toNat, t169.val.toNat, t174.val.toNat, t175.val.toNat] + val (2 ^ 64) [l180.toNat, l211.toNat, l244.toNat, l277.toNat, l310.toNat, l343.toNat] * val (2 ^ 64) [p0.toNat, p1.toNat, p2.toNat, p3.toNat, p4.toNat, p5.toNat] := by
-    simp only [val_cons, val_nil]
-    linear_combination f181 + 2 ^ 64 * e184.1 + 2 ^ 128 * e189.1 + 2 ^ 192 * e194.1 + 2 ^ 256 * e199.1 + 2 ^ 320 * e204.1 + 2 ^ 384 * e209.1 + 2 ^ 64 * f212 + 2 ^ 128 * e215.1 + 2 ^ 192 * e220.1 + 2 ^ 256 * e225.1 + 2 ^ 320 * e230.1 + 2 ^ 384 * e235.1 + 2 ^ 448 * e242.1 + 2 ^ 128 * f245 + 2 ^ 192 * e248.1 + 2 ^ 256 * e253.1 + 2 ^ 320 * e258.1 + 2 ^ 384 * e263.1 + 2 ^ 448 * e268.1 + 2 ^ 512 * e275.1 + 2 ^ 192 * f278 + 2 ^ 256 * e281.1 + 2 ^ 320 * e286.1 + 2 ^ 384 * e291.1 + 2 ^ 448 * e296.1 + 2 ^ 512 * e301.1 + 2 ^ 576 * e308.1 + 2 ^ 256 * f311 + 2 ^ 320 * e314.1 + 2 ^ 384 * e319.1 + 2 ^ 448 * e324.1 + 2 ^ 512 * e329.1 + 2 ^ 576 * e334.1 + 2 ^ 640 * e341.1 + 2 ^ 320 * f344 + 2 ^ 384 * e347.1 + 2 ^ 448 * e352.1 + 2 ^ 512 * e357.1 + 2 ^ 576 * e362.1 + 2 ^ 640 * e367.1 + 2 ^ 704 * e374
-  exact (X86.mont_finish key (X86.val6_lt l180 l211 l244 l277 l310 l343) hT h2P).2
 
 
 set_option maxHeartbeats 1600000 in
